@@ -205,6 +205,10 @@ class _Expander(ast.NodeTransformer):
 
     def visit_Attribute(self, n: ast.Attribute):  # noqa: N802
         n = self.generic_visit(n)
+        if isinstance(n.ctx, ast.Load) and isinstance(n.value, ast.Name) and n.value.id == "self" and "self" not in self.bound:
+            val = _property_value(self.fi, n.attr)
+            if val is not None:
+                return _Expander(self.fi, self.getsub, self.seen).visit(val)
         if self.fields and isinstance(n.ctx, ast.Load) and isinstance(n.value, ast.Subscript) and (norm(n.value.value), n.attr) in self.fields:
             return ast.Subscript(value=n.value, slice=ast.Constant(value=self.fields[(norm(n.value.value), n.attr)]), ctx=ast.Load())
         return n
@@ -241,11 +245,172 @@ class _Expander(ast.NodeTransformer):
         if plain is not n:
             return self.visit(plain)              # an operator-module spelling: read as the syntax it stands for
         n = self.generic_visit(n)
+        val = _pure_call_value(self.fi, n)
+        if val is not None:
+            return val                            # a one-expression function (possibly of another module): what the call evaluates to
         # table.get(k) / table.get(k, None) read the same entry as table[k] wherever the entry exists
         if isinstance(n.func, ast.Attribute) and n.func.attr == "get" and not n.keywords and norm(n.func.value) in self.getsub \
                 and (len(n.args) == 1 or (len(n.args) == 2 and const_value(n.args[1]) is None)) and not isinstance(n.args[0], ast.Starred):
             return ast.Subscript(value=n.func.value, slice=n.args[0], ctx=ast.Load())
         return n
+
+
+_PURE_DEPTH = [0]
+
+
+def _same_global(m1, m2, name: str) -> bool:
+    """a free name means the same thing in both modules: a builtin neither rebinds, or the same class / function / constant / import"""
+    if m1 is m2:
+        return True
+    import builtins
+    try:
+        r1, r2 = _REPO.resolve_name(m1, name), _REPO.resolve_name(m2, name)
+    except Exception:  # noqa: BLE001
+        return False
+    if r1 is None and r2 is None:
+        i1, i2 = m1.imports.get(name), m2.imports.get(name)
+        if i1 is None and i2 is None:
+            return hasattr(builtins, name)
+        return i1 is not None and i1 == i2
+    if isinstance(r1, tuple) and isinstance(r2, tuple):
+        return len(r1) == len(r2) and all(a is b or a == b for a, b in zip(r1, r2))
+    return r1 is r2 and r1 is not None
+
+
+def _one_expression_target(fi: FuncInfo, call: ast.Call):
+    """the function a call runs when that function is nothing but `return <expression>` (plain / static / class method, not async, not a generator); else None"""
+    f = call.func
+    if isinstance(f, ast.Name):
+        if f.id in fi.params() or local_defs(fi, f.id):
+            return None
+    elif not (isinstance(f, ast.Attribute) and isinstance(f.value, ast.Name) and (f.value.id in ("self", "cls") or not (f.value.id in fi.params() or local_defs(fi, f.value.id)))):
+        return None
+    # remembered per repository model: the same caller file can stand next to different helper modules in another variant
+    memo = _REPO.__dict__.setdefault("_c17_one_expr", {})
+    key = (id(fi.node), norm(f))
+    if key in memo:
+        return memo[key]
+    memo[key] = None
+    try:
+        tg = _REPO.resolve_call(fi, call)
+        if not tg and isinstance(f, ast.Attribute) and f.value.id not in ("self", "cls"):
+            r = _REPO.resolve_name(fi.module, f.value.id)           # <imported module>.function(...)
+            if isinstance(r, tuple) and r[0] == "module" and r[1] is not None and f.attr in r[1].functions:
+                tg = [r[1].functions[f.attr]]
+    except Exception:  # noqa: BLE001
+        return None
+    if len(tg) != 1 or tg[0].is_async or tg[0].node is fi.node or isinstance(tg[0].node, ast.Lambda):
+        return None
+    hf = tg[0]
+    if isinstance(f, ast.Attribute) and f.value.id not in ("self", "cls") and hf.cls is not None and not {"staticmethod", "classmethod"} & set(hf.decorator_names()):
+        return None                               # Class.method(obj, ...): the receiver is an argument
+    if any(d not in ("staticmethod", "classmethod") for d in hf.decorator_names()) or len(hf.decorator_names()) != len(hf.node.decorator_list):
+        return None
+    if isinstance(f, ast.Name) and (hf.cls is not None or hf.name == "__init__"):
+        return None
+    body = [x for x in hf.node.body if not (isinstance(x, ast.Expr) and isinstance(x.value, ast.Constant))]
+    if _is_generator(hf.node):
+        value = _generator_expression(body)
+        if value is None:
+            return None
+        memo[key] = (hf, value)
+        return memo[key]
+    if len(body) != 1 or not isinstance(body[0], ast.Return) or body[0].value is None:
+        return None
+    memo[key] = (hf, body[0].value)
+    return memo[key]
+
+
+def _generator_expression(body: list) -> ast.AST | None:
+    """
+    The generator expression a tiny generator function amounts to: `for t in X: [if c:] yield E` is `(E for t in X [if c])`
+    (nested for / if levels become further clauses), `yield from X` is `(x for x in X)`.  Both produce the same elements
+    in the same order, lazily.  None for any other body.
+    """
+    if len(body) != 1:
+        return None
+    st = body[0]
+    if isinstance(st, ast.Expr) and isinstance(st.value, ast.YieldFrom):
+        v = ast.Name(id="_c17_y", ctx=ast.Load())
+        return ast.GeneratorExp(elt=v, generators=[ast.comprehension(target=ast.Name(id="_c17_y", ctx=ast.Store()), iter=st.value.value, ifs=[], is_async=0)])
+    gens: list = []
+    while True:
+        if isinstance(st, ast.For) and not st.orelse and len(st.body) == 1:
+            gens.append(ast.comprehension(target=st.target, iter=st.iter, ifs=[], is_async=0))
+            st = st.body[0]
+        elif isinstance(st, ast.If) and not st.orelse and len(st.body) == 1 and gens:
+            gens[-1].ifs.append(st.test)
+            st = st.body[0]
+        else:
+            break
+    if not gens or not (isinstance(st, ast.Expr) and isinstance(st.value, ast.Yield) and st.value.value is not None):
+        return None
+    if any(isinstance(n, (ast.Yield, ast.YieldFrom, ast.Await, ast.NamedExpr)) for g in gens for x in [g.iter, *g.ifs] for n in ast.walk(x)) \
+            or any(isinstance(n, (ast.Yield, ast.YieldFrom, ast.Await, ast.NamedExpr)) for n in ast.walk(st.value.value)):
+        return None
+    return ast.GeneratorExp(elt=st.value.value, generators=gens)
+
+
+def _pure_call_value(fi: FuncInfo, call: ast.AST) -> ast.AST | None:
+    """
+    What a call of a one-expression function evaluates to, told in the caller's terms: the returned expression with the
+    parameters replaced by the arguments, constants of the function's own module by their values, names bound inside
+    the expression renamed apart.  None when the callee is anything else, or mentions a global that means something else
+    in the caller's module.
+    """
+    if _REPO is None or not isinstance(call, ast.Call) or _PURE_DEPTH[0] >= 3:
+        return None
+    got = _one_expression_target(fi, call)
+    if got is None:
+        return None
+    hf, value = got
+    fr = _Frame(fi, call, hf, "v_")
+    if not fr.ok:
+        return None
+    _PURE_DEPTH[0] += 1
+    try:
+        out = fr.lift(value, ())
+    finally:
+        _PURE_DEPTH[0] -= 1
+    for n in ast.walk(_expand(hf, value)):
+        if isinstance(n, ast.Name) and n.id not in fr.locals and n.id not in fr.bind:
+            if n.id in fi.params() or local_defs(fi, n.id) or not _same_global(hf.module, fi.module, n.id):
+                return None                       # a global of the callee that the caller's scope spells differently
+    return out
+
+
+def _property_value(fi: FuncInfo, attr: str) -> ast.AST | None:
+    """
+    What `self.<attr>` evaluates to inside a method of fi's class when <attr> is a read-only @property that the reviewed
+    tree does not have and that is nothing but `return <expression over self>`: that expression (a fresh copy).  None otherwise.
+    """
+    if _REPO is None or fi.cls is None or not fi.params() or fi.params()[0] != "self" or local_defs(fi, "self") or _PURE_DEPTH[0] >= 3:
+        return None
+    memo = _REPO.__dict__.setdefault("_c17_props", {})
+    key = (id(fi.cls.node), attr)
+    if key not in memo:
+        memo[key] = None
+        try:
+            m = fi.cls.lookup(attr)
+            if m is not None and m.decorator_names() == ["property"] and len(m.node.decorator_list) == 1 and not m.is_async and _is_new(m) and m.params() == ["self"] \
+                    and not any(attr in k.methods and k.methods[attr] is not m for k in [*fi.cls.mro(), *fi.cls.all_subclasses()]) \
+                    and sum(1 for x in m.cls.node.body if isinstance(x, (ast.FunctionDef, ast.AsyncFunctionDef)) and x.name == attr) == 1:
+                body = [x for x in m.node.body if not (isinstance(x, ast.Expr) and isinstance(x.value, ast.Constant))]
+                # (a bare attribute chain is a view / rename of stored state: the rules keep reading it under the property's name)
+                if len(body) == 1 and isinstance(body[0], ast.Return) and body[0].value is not None and m.module is fi.module and not _plain_reference(strip_cast(body[0].value)) \
+                        and not any(isinstance(x, (ast.Lambda, ast.Yield, ast.YieldFrom, ast.Await, ast.NamedExpr)) for x in ast.walk(body[0].value)) \
+                        and not any(isinstance(x, ast.Attribute) and isinstance(x.value, ast.Name) and x.value.id == "self" and x.attr == attr for x in ast.walk(body[0].value)):
+                    memo[key] = body[0].value
+        except Exception:  # noqa: BLE001
+            memo[key] = None
+    v = memo[key]
+    if v is None:
+        return None
+    # names bound inside the expression (comprehension variables) must not be captured by locals of fi: keep it simple, refuse
+    inner = {x.id for x in ast.walk(v) if isinstance(x, ast.Name) and x.id != "self"}
+    if any(x in fi.params() or local_defs(fi, x) for x in inner):
+        return None
+    return _copy(v)
 
 
 def _expand(fi: FuncInfo, e: ast.AST | None, getsub: tuple[str, ...] = ()) -> ast.AST | None:
@@ -292,12 +457,129 @@ def _module_literal(fi: FuncInfo, name: str) -> ast.AST | None:
         r = _REPO.resolve_name(fi.module, name)
     except Exception:  # noqa: BLE001
         return None
-    if isinstance(r, tuple) and r[0] == "const" and _literal(strip_cast(r[2])):
-        # written once at module level (a rebound module global is not a constant)
-        stores_ = [n for n in ast.walk(r[1].tree) if isinstance(n, ast.Name) and n.id == name and isinstance(n.ctx, (ast.Store, ast.Del))]
-        glob = any(isinstance(n, ast.Global) and name in n.names for n in ast.walk(r[1].tree))
-        return strip_cast(r[2]) if len(stores_) == 1 and not glob else None
+    if isinstance(r, tuple) and r[0] == "const":
+        own = next((k for k, x in r[1].constants.items() if x is r[2]), name)
+        if not _written_once(r[1], own):
+            return None                           # a rebound module global is not a constant
+        if _literal(strip_cast(r[2])):
+            return strip_cast(r[2])
+        # a derived constant (5 * 60, len(OTHER), calcsize("...")) is the value it evaluates to
+        return _value_ast(_fold_value(r[1], strip_cast(r[2])))
     return None
+
+
+def _written_once(m, name: str) -> bool:
+    """the module-level name is bound exactly once in its module and never declared global in a function"""
+    memo = m.tree.__dict__.setdefault("_c17_once", {})
+    if name not in memo:
+        stores_ = [n for n in ast.walk(m.tree) if isinstance(n, ast.Name) and n.id == name and isinstance(n.ctx, (ast.Store, ast.Del))]
+        glob = any(isinstance(n, ast.Global) and name in n.names for n in ast.walk(m.tree))
+        memo[name] = len(stores_) == 1 and not glob
+    return memo[name]
+
+
+def _value_ast(v) -> ast.AST | None:
+    """the literal that spells a folded value (numbers, text, bytes, None and flat tuples of those); None for anything else"""
+    if v is None or isinstance(v, (bool, int, float, str, bytes)):
+        return ast.Constant(value=v)
+    if isinstance(v, tuple) and all(x is None or isinstance(x, (bool, int, float, str, bytes)) for x in v):
+        return ast.Tuple(elts=[ast.Constant(value=x) for x in v], ctx=ast.Load())
+    return None
+
+
+_DIGEST_SIZES = {"md5": 16, "sha1": 20, "sha224": 28, "sha256": 32, "sha384": 48, "sha512": 64, "sha3_224": 28, "sha3_256": 32, "sha3_384": 48, "sha3_512": 64}
+
+
+def _fold_value(m, e: ast.AST | None, depth: int = 0):  # noqa: C901, PLR0911, PLR0912
+    """
+    The value of an expression of module m that does not depend on the run: literals, module constants written once,
+    Class.CONSTANT, arithmetic over those, len() of a constant, struct.calcsize / Struct(...).size of a constant format,
+    the digest size of a hashlib algorithm, int() / float() / min / max / sum / abs / round of constants,
+    timedelta(...).total_seconds().  NOCONST for everything else (nothing of the analysed code is run: only the
+    arithmetic is redone here).
+    """
+    if e is None or depth > 12 or _REPO is None:
+        return NOCONST
+    e = strip_cast(e)
+    v = const_value(e)
+    if v is not NOCONST:
+        return v
+
+    def sub(x):
+        return _fold_value(m, x, depth + 1)
+    try:
+        if isinstance(e, ast.Name):
+            r = _REPO.resolve_name(m, e.id)
+            if isinstance(r, tuple) and r[0] == "const":
+                own = next((k for k, x in r[1].constants.items() if x is r[2]), None)
+                if own is not None and _written_once(r[1], own):
+                    return _fold_value(r[1], r[2], depth + 1)
+            return NOCONST
+        if isinstance(e, (ast.Tuple, ast.List)):
+            vals = [sub(x) for x in e.elts]
+            return NOCONST if any(x is NOCONST for x in vals) or any(isinstance(x, ast.Starred) for x in e.elts) else tuple(vals)
+        if isinstance(e, ast.UnaryOp):
+            x = sub(e.operand)
+            if x is NOCONST:
+                return NOCONST
+            return -x if isinstance(e.op, ast.USub) else +x if isinstance(e.op, ast.UAdd) else (not x) if isinstance(e.op, ast.Not) else ~x
+        if isinstance(e, ast.BinOp):
+            l, r = sub(e.left), sub(e.right)
+            if l is NOCONST or r is NOCONST:
+                return NOCONST
+            if isinstance(e.op, ast.Pow) and not (isinstance(r, int) and 0 <= r <= 64):
+                return NOCONST
+            if isinstance(e.op, (ast.Mult, ast.LShift)) and any(isinstance(x, (str, bytes, tuple)) for x in (l, r)) and max([x for x in (l, r) if isinstance(x, int)] or [0]) > 4096:
+                return NOCONST
+            ops = {ast.Add: lambda: l + r, ast.Sub: lambda: l - r, ast.Mult: lambda: l * r, ast.Pow: lambda: l ** r, ast.FloorDiv: lambda: l // r,
+                   ast.Div: lambda: l / r, ast.Mod: lambda: l % r, ast.LShift: lambda: l << r if r < 256 else NOCONST, ast.RShift: lambda: l >> r,
+                   ast.BitOr: lambda: l | r, ast.BitAnd: lambda: l & r, ast.BitXor: lambda: l ^ r}
+            return ops[type(e.op)]() if type(e.op) in ops else NOCONST
+        if isinstance(e, ast.Attribute):
+            if e.attr in ("size", "digest_size") and isinstance(e.value, ast.Call):
+                c = e.value
+                f = (chain(c.func) or "").split(".")[-1]
+                if e.attr == "size" and f == "Struct" and len(c.args) == 1 and not c.keywords and isinstance(sub(c.args[0]), (str, bytes)):
+                    import struct
+                    return struct.calcsize(sub(c.args[0]))
+                if e.attr == "digest_size" and f in _DIGEST_SIZES and not c.keywords and len(c.args) <= 1:
+                    return _DIGEST_SIZES[f]
+                return NOCONST
+            if e.attr == "size" and isinstance(e.value, ast.Name):
+                r = _REPO.resolve_name(m, e.value.id)
+                if isinstance(r, tuple) and r[0] == "const" and isinstance(strip_cast(r[2]), ast.Call):
+                    own = next((k for k, x in r[1].constants.items() if x is r[2]), None)
+                    return _fold_value(r[1], ast.Attribute(value=strip_cast(r[2]), attr="size", ctx=ast.Load()), depth + 1) if own and _written_once(r[1], own) else NOCONST
+            cv = _REPO.resolve_const(m, e, None)
+            return tuple(cv) if isinstance(cv, list) else cv
+        if isinstance(e, ast.Call) and not any(isinstance(a, ast.Starred) for a in e.args):
+            f = chain(e.func) or ""
+            args = [sub(a) for a in e.args]
+            if isinstance(e.func, ast.Attribute) and e.func.attr == "total_seconds" and not e.args and not e.keywords and isinstance(e.func.value, ast.Call) \
+                    and (chain(e.func.value.func) or "").split(".")[-1] == "timedelta" and not e.func.value.args:
+                import datetime
+                kw = {k.arg: sub(k.value) for k in e.func.value.keywords}
+                if None in kw or any(not isinstance(x, (int, float)) or isinstance(x, bool) for x in kw.values()):
+                    return NOCONST
+                return datetime.timedelta(**kw).total_seconds()
+            if e.keywords or any(a is NOCONST for a in args):
+                return NOCONST
+            if f == "len" and len(args) == 1 and isinstance(args[0], (str, bytes, tuple)):
+                return len(args[0])
+            if f in ("calcsize", "struct.calcsize") and len(args) == 1 and isinstance(args[0], (str, bytes)):
+                import struct
+                return struct.calcsize(args[0])
+            if f in ("int", "float", "abs", "round") and len(args) == 1 and isinstance(args[0], (int, float)):
+                return {"int": int, "float": float, "abs": abs, "round": round}[f](args[0])
+            if f in ("min", "max", "sum") and args and all(isinstance(a, (int, float)) for a in (args[0] if len(args) == 1 and isinstance(args[0], tuple) else args)):
+                return {"min": min, "max": max, "sum": sum}[f](args[0] if len(args) == 1 and isinstance(args[0], tuple) else args)
+    except Exception:  # noqa: BLE001
+        return NOCONST
+    return NOCONST
+
+
+def _is_number(v, n) -> bool:
+    return isinstance(v, (int, float)) and not isinstance(v, bool) and v == n
 
 
 def _const_set(e: ast.AST):
@@ -826,6 +1108,357 @@ def _unrolled(ctx: Ctx, fi: FuncInfo) -> FuncInfo:
     return out
 
 
+def _wrapper_of(dfn: ast.AST, args: list | None):
+    """
+    (wrapper FunctionDef, name of the parameter holding the decorated function, {decorator parameter: argument}) of a
+    decorator function `def d(func): def wrapper(...): ...; return wrapper` (args None) or a decorator factory
+    `def d(a, b): def decorator(func): def wrapper(...): ...; return wrapper; return decorator` (args: the argument
+    expressions of `@d(x, y)`).  None for any other shape.
+    """
+    def shape(fn):
+        body = [x for x in fn.body if not (isinstance(x, ast.Expr) and isinstance(x.value, ast.Constant))]
+        a = fn.args
+        if len(body) != 2 or not isinstance(body[0], (ast.FunctionDef, ast.AsyncFunctionDef)) or not isinstance(body[1], ast.Return) \
+                or not isinstance(body[1].value, ast.Name) or body[1].value.id != body[0].name or a.vararg or a.kwarg or a.kwonlyargs:
+            return None
+        return body[0], [x.arg for x in [*a.posonlyargs, *a.args]], a.defaults
+    if isinstance(dfn, ast.AsyncFunctionDef):
+        return None
+    got = shape(dfn)
+    if got is None:
+        return None
+    inner, params, defaults = got
+    bound: dict = {}
+    if args is not None:
+        # the factory's parameters are fixed by the arguments of `@d(...)`
+        pos, kws = args
+        if len(pos) > len(params) or any(isinstance(x, ast.Starred) for x in pos) or any(k.arg is None or k.arg not in params for k in kws):
+            return None
+        bound = dict(zip(params, pos))
+        for k in kws:
+            if k.arg in bound:
+                return None
+            bound[k.arg] = k.value
+        for pn, d in zip(reversed(params), reversed(defaults)):
+            bound.setdefault(pn, d)
+        if set(bound) != set(params) or any(const_value(v) is NOCONST and not isinstance(v, (ast.Name, ast.Attribute)) for v in bound.values()):
+            return None
+        got = shape(inner)
+        if got is None or isinstance(inner, ast.AsyncFunctionDef):
+            return None
+        inner, params, defaults = got
+    if len(params) != 1:
+        return None
+    for d in inner.decorator_list:
+        # only functools.wraps(func): it copies the name and the documentation, nothing the call does
+        if not (isinstance(d, ast.Call) and (chain(d.func) or "").split(".")[-1] == "wraps" and len(d.args) == 1 and isinstance(d.args[0], ast.Name) and d.args[0].id == params[0]):
+            return None
+    return inner, params[0], bound
+
+
+def _merge_decorator(fi: FuncInfo, body_fn: ast.AST, wrapper: ast.AST, fname: str, bound: dict):  # noqa: C901, PLR0911, PLR0912
+    """
+    The function `wrapper` with every call of the decorated function `fname(...)` replaced by the statements of body_fn
+    (the engine's own helper inlining, i.e. a behaviour preserving rewrite); None when that cannot be done.
+    """
+    from ..normalize import Inliner
+    w, b = clone(wrapper), clone(body_fn)
+    w.decorator_list, b.decorator_list = [], []
+    if isinstance(w, ast.AsyncFunctionDef) != isinstance(b, ast.AsyncFunctionDef):
+        return None
+    bname = "_c17_decorated_body"
+    wa, ba = w.args, b.args
+    if ba.vararg or ba.kwarg or ba.kwonlyargs or wa.kwonlyargs:
+        return None
+    bparams = [x.arg for x in [*ba.posonlyargs, *ba.args]]
+    inner_calls = [c for c in ast.walk(w) if isinstance(c, ast.Call) and isinstance(c.func, ast.Name) and c.func.id == fname]
+    if not inner_calls:
+        return None
+    stored = {n.id for n in ast.walk(w) if isinstance(n, ast.Name) and isinstance(n.ctx, (ast.Store, ast.Del))}
+    # other mentions of the decorated function: its name in a log line is a constant, anything else is not read
+    callee_ids = {id(c.func) for c in inner_calls}
+    repl: dict = {}
+    for n in ast.walk(w):
+        if isinstance(n, ast.Attribute) and isinstance(n.value, ast.Name) and n.value.id == fname and n.attr in ("__name__", "__qualname__"):
+            repl[id(n)] = ast.Constant(value=fi.name if n.attr == "__name__" else fi.qualname)
+    class Fix(ast.NodeTransformer):
+        def visit_Attribute(self, n):  # noqa: N802
+            return ast.copy_location(repl[id(n)], n) if id(n) in repl else self.generic_visit(n)
+    w = Fix().visit(w)
+    if any(isinstance(n, ast.Name) and n.id == fname and id(n) not in callee_ids for n in ast.walk(w)) or fname in stored:
+        return None
+    # *args / **kwargs handed straight through: the wrapper takes what the decorated function takes
+    star, kwstar = (wa.vararg.arg if wa.vararg else None), (wa.kwarg.arg if wa.kwarg else None)
+    wparams = [x.arg for x in [*wa.posonlyargs, *wa.args]]
+    if star or kwstar:
+        uses = [n for n in ast.walk(w) if isinstance(n, ast.Name) and n.id in (star, kwstar)]
+        passed = set()
+        for c in inner_calls:
+            fixed = [a for a in c.args if not isinstance(a, ast.Starred)]
+            st_ = [a for a in c.args if isinstance(a, ast.Starred)]
+            kw_ = [k for k in c.keywords if k.arg is None]
+            if len(st_) != (1 if star else 0) or len(kw_) != (1 if kwstar else 0) or any(k.arg is not None for k in c.keywords) or (st_ and c.args[-1] is not st_[0]):
+                return None
+            if st_ and not (isinstance(st_[0].value, ast.Name) and st_[0].value.id == star):
+                return None
+            if kw_ and not (isinstance(kw_[0].value, ast.Name) and kw_[0].value.id == kwstar):
+                return None
+            passed |= {id(x.value) for x in [*st_, *kw_]}
+            rest = bparams[len(fixed):]
+            if len(fixed) != len(wparams) or len(fixed) > len(bparams):
+                return None
+            c.args = [*fixed, *[ast.Name(id=q, ctx=ast.Load()) for q in rest]]
+            c.keywords = []
+        if any(id(n) not in passed for n in uses) or len({len([a for a in c.args]) for c in inner_calls}) != 1:
+            return None
+        rest = bparams[len(wparams):]
+        if set(rest) & (set(wparams) | stored | {n.id for n in ast.walk(w) if isinstance(n, ast.Name)} - set(rest)):
+            pass
+        taken = {n.id for n in ast.walk(wrapper) if isinstance(n, ast.Name)} | set(wparams)
+        if set(rest) & taken:
+            return None
+        nd = len(ba.defaults)
+        rest_args = [*ba.posonlyargs, *ba.args][len(wparams):]
+        if nd > len(rest_args) or wa.defaults:
+            return None
+        wa.args = [*wa.args, *[ast.arg(arg=x.arg, annotation=None) for x in rest_args]]
+        wa.defaults = [clone(d) for d in ba.defaults]
+        wa.vararg = wa.kwarg = None
+        wparams = [x.arg for x in [*wa.posonlyargs, *wa.args]]
+    # parameters handed through under another name take the name the decorated function uses (`this` -> `self`)
+    rename: dict = {}
+    for c in inner_calls:
+        if any(isinstance(a, ast.Starred) for a in c.args) or c.keywords:
+            continue
+        for i, a in enumerate(c.args[:len(bparams)]):
+            if isinstance(a, ast.Name) and a.id in wparams and a.id not in stored and a.id != bparams[i]:
+                if rename.get(a.id, bparams[i]) != bparams[i]:
+                    return None
+                rename[a.id] = bparams[i]
+    names_w = {n.id for n in ast.walk(w) if isinstance(n, ast.Name)} | set(wparams)
+    if rename:
+        if set(rename.values()) & (names_w - set(rename)) or len(set(rename.values())) != len(rename):
+            rename = {}
+    if rename:
+        for n in ast.walk(w):
+            if isinstance(n, ast.Name) and n.id in rename:
+                n.id = rename[n.id]
+            elif isinstance(n, ast.arg) and n.arg in rename:
+                n.arg = rename[n.arg]
+    # parameters of a decorator factory are what `@d(...)` passed
+    if bound:
+        if set(bound) & stored:
+            return None
+        class Sub(ast.NodeTransformer):
+            def visit_Name(self, n):  # noqa: N802
+                return ast.copy_location(clone(bound[n.id]), n) if n.id in bound and isinstance(n.ctx, ast.Load) else n
+        w = Sub().visit(w)
+    for c in ast.walk(w):
+        if isinstance(c, ast.Call) and isinstance(c.func, ast.Name) and c.func.id == fname:
+            c.func.id = bname
+    b.name = bname
+    w.name = "_c17_merged"
+    tree = ast.Module(body=[b, w], type_ignores=[])
+    ast.fix_missing_locations(tree)
+    try:
+        inl = Inliner(tree, {"_c17_merged"})
+        inl.external = set()
+        inl.run()
+    except AnalysisError:
+        raise
+    except Exception:  # noqa: BLE001
+        return None
+    h = inl.helpers.get((None, bname))
+    if h is None or h.failed or not h.inlined:
+        return None
+    if any(isinstance(n, ast.Name) and n.id == bname for n in ast.walk(w)):
+        return None
+    return w
+
+
+def _undecorated(repo, fi: FuncInfo) -> FuncInfo:  # noqa: C901
+    """
+    fi itself, or - when fi is decorated with decorators the reviewed tree does not have (a guard that moved out of the
+    body into a small wrapper) - the function its name now denotes: the wrapper the decorator returns with the decorated
+    body in place of the inner call, as one function (parameters bound, behaviour unchanged).  Decorators of the
+    reviewed tree stay where they are.  A new decorator that cannot be read makes the verdict undecided.
+    """
+    if isinstance(fi.node, ast.Lambda) or not getattr(fi.node, "decorator_list", None):
+        return fi
+    # remembered per repository model: the decorator may live in another file, which differs between variants
+    memo = repo.__dict__.setdefault("_c17_undecorated", {})
+    if id(fi.node) in memo:
+        return memo[id(fi.node)][0]
+    memo[id(fi.node)] = (fi, fi.node)
+    decs = list(fi.node.decorator_list)
+    cur, outer = fi.node, decs
+    merged_any = False
+    while outer:
+        d = outer[-1]
+        call_args = None
+        ref = d
+        if isinstance(d, ast.Call):
+            ref, call_args = d.func, (list(d.args), list(d.keywords))
+        dfi = None
+        try:
+            if isinstance(ref, ast.Name):
+                r = repo.resolve_name(fi.module, ref.id)
+                dfi = r if isinstance(r, FuncInfo) else None
+            elif isinstance(ref, ast.Attribute) and isinstance(ref.value, ast.Name):
+                r = repo.resolve_name(fi.module, ref.value.id)
+                if isinstance(r, tuple) and r[0] == "module" and r[1] is not None:
+                    dfi = r[1].functions.get(ref.attr)
+                elif fi.cls is not None and ref.value.id == fi.cls.name:
+                    dfi = fi.cls.lookup(ref.attr)
+        except Exception:  # noqa: BLE001
+            dfi = None
+        if dfi is None or not _is_new(dfi):
+            break                                 # a decorator of the reviewed tree (or of a library): the rules know it as it is
+        got = _wrapper_of(dfi.node, call_args)
+        new = None
+        if got is not None:
+            wrapper, fname, bound = got
+            # free names of the wrapper are read in the decorator's module: they have to mean the same where the function lives
+            local_w = {n.id for n in ast.walk(wrapper) if isinstance(n, ast.Name) and isinstance(n.ctx, (ast.Store, ast.Del))} | {a.arg for a in ast.walk(wrapper) if isinstance(a, ast.arg)}
+            free = {n.id for n in ast.walk(wrapper) if isinstance(n, ast.Name) and n.id not in local_w and n.id != fname and n.id not in bound}
+            free -= {n.id for dd in wrapper.decorator_list for n in ast.walk(dd) if isinstance(n, ast.Name)}
+            global _REPO  # noqa: PLW0603
+            _REPO = repo
+            if all(_same_global(dfi.module, fi.module, x) for x in free):
+                new = _merge_decorator(fi, cur, wrapper, fname, bound)
+        if new is None:
+            raise AnalysisError(f"undecided: {fi.qualname} is decorated with `{norm(d)[:60]}`, a new decorator whose wrapper could not be merged with the decorated body")
+        cur, outer, merged_any = new, outer[:-1], True
+    for d in outer[:-1] if outer else []:
+        ref = d.func if isinstance(d, ast.Call) else d
+        try:
+            r = repo.resolve_name(fi.module, ref.id) if isinstance(ref, ast.Name) else None
+        except Exception:  # noqa: BLE001
+            r = None
+        if isinstance(r, FuncInfo) and _is_new(r):
+            raise AnalysisError(f"undecided: {fi.qualname} carries the new decorator `{norm(d)[:60]}` outside a decorator of the reviewed tree; what it is called with could not be read")
+    if not merged_any:
+        return fi
+    cur.name = fi.node.name
+    cur.decorator_list = [clone(d) for d in outer]
+    ast.fix_missing_locations(cur)
+    set_parents(cur)
+    # the merged function stands where the decorated one stood (class body / module), so that enclosing scopes are found
+    cur._parent = parent(fi.node)  # noqa: SLF001
+    out = FuncInfo(fi.name, fi.qualname, cur, fi.module, fi.cls)
+    memo[id(cur)] = (out, cur)
+    memo[id(fi.node)] = (out, fi.node)
+    return out
+
+
+def _localised(repo, fi: FuncInfo) -> FuncInfo:  # noqa: C901, PLR0912
+    """
+    fi with every call of a module-level function that the reviewed tree does not have and that lives in ANOTHER module
+    replaced by that function's statements (the engine's own helper inlining - which only looks at helpers of the same
+    file - applied across files).  Used where a rule reads one function as a whole.  A helper whose free names mean
+    something else in fi's module, or that the inliner cannot place, stays a call (fi is returned unchanged).
+    """
+    memo = repo.__dict__.setdefault("_c17_localised", {})
+    if id(fi.node) in memo:
+        return memo[id(fi.node)][0]
+    memo[id(fi.node)] = (fi, fi.node)
+    if isinstance(fi.node, ast.Lambda):
+        return fi
+    global _REPO  # noqa: PLW0603
+    _REPO = repo
+    found: dict = {}
+    sites: dict = {}
+    for c in ast.walk(fi.node):
+        if not isinstance(c, ast.Call):
+            continue
+        f = c.func
+        tg = None
+        try:
+            if isinstance(f, ast.Name) and f.id not in fi.params() and not local_defs(fi, f.id):
+                r = repo.resolve_name(fi.module, f.id)
+                tg = r if isinstance(r, FuncInfo) else None
+            elif isinstance(f, ast.Attribute) and isinstance(f.value, ast.Name) and f.value.id not in fi.params() and not local_defs(fi, f.value.id):
+                r = repo.resolve_name(fi.module, f.value.id)
+                if isinstance(r, tuple) and r[0] == "module" and r[1] is not None:
+                    tg = r[1].functions.get(f.attr)
+        except Exception:  # noqa: BLE001
+            tg = None
+        if tg is None or tg.cls is not None or tg.module is fi.module or not _is_new(tg) or tg.node.decorator_list:
+            continue
+        found[id(tg.node)] = tg
+        sites[(c.lineno, c.col_offset, c.end_lineno, c.end_col_offset)] = tg
+    if not found:
+        return fi
+    import builtins
+    for tg in found.values():
+        bound = {n.id for n in ast.walk(tg.node) if isinstance(n, ast.Name) and isinstance(n.ctx, (ast.Store, ast.Del))} | {a.arg for a in ast.walk(tg.node) if isinstance(a, ast.arg)} \
+            | {h.name for h in ast.walk(tg.node) if isinstance(h, ast.ExceptHandler) and h.name}
+        for n in ast.walk(tg.node):
+            if isinstance(n, ast.Name) and n.id not in bound and not _same_global(tg.module, fi.module, n.id):
+                return fi
+            if isinstance(n, ast.Name) and n.id not in bound and (n.id in fi.params() or local_defs(fi, n.id)) and not hasattr(builtins, n.id):
+                return fi
+    from ..normalize import Inliner
+    new = clone(fi.node)
+    new.decorator_list = []
+    new.name = "_c17_whole"
+    alias = {id(tg.node): f"_c17_h{i}_{tg.name}" for i, tg in enumerate(found.values())}
+    for c in ast.walk(new):
+        if isinstance(c, ast.Call):
+            tg = sites.get((getattr(c, "lineno", None), getattr(c, "col_offset", None), getattr(c, "end_lineno", None), getattr(c, "end_col_offset", None)))
+            if tg is not None and isinstance(c.func, (ast.Name, ast.Attribute)) and (c.func.id if isinstance(c.func, ast.Name) else c.func.attr) == tg.name:
+                c.func = ast.copy_location(ast.Name(id=alias[id(tg.node)], ctx=ast.Load()), c.func)
+    # `flag &= helper(...)` (a local on the left): the call is evaluated into a temporary first - the local is read before the call
+    # either way and the helper cannot rebind it - so that the inliner finds the call as the whole right-hand side of a plain assignment
+    counter = [0]
+
+    class Hoist(ast.NodeTransformer):
+        def visit_AugAssign(self, n):  # noqa: N802
+            if isinstance(n.target, ast.Name) and isinstance(n.value, ast.Call) and isinstance(n.value.func, ast.Name) and n.value.func.id in alias.values():
+                counter[0] += 1
+                tmp = f"_c17_t{counter[0]}"
+                first = ast.copy_location(ast.Assign(targets=[ast.Name(id=tmp, ctx=ast.Store())], value=n.value), n)
+                n.value = ast.copy_location(ast.Name(id=tmp, ctx=ast.Load()), n.value)
+                return [first, n]
+            return n
+
+        def visit_FunctionDef(self, n):  # noqa: N802
+            return self.generic_visit(n) if n is new else n
+        visit_AsyncFunctionDef = visit_Lambda = visit_ClassDef = visit_FunctionDef
+    Hoist().visit(new)
+    defs = []
+    for tg in found.values():
+        d = clone(tg.node)
+        d.name = alias[id(tg.node)]
+        defs.append(d)
+    tree = ast.Module(body=[*defs, new], type_ignores=[])
+    ast.fix_missing_locations(tree)
+    try:
+        inl = Inliner(tree, {"_c17_whole"})
+        inl.external = set()
+        inl.run()
+    except Exception:  # noqa: BLE001
+        return fi
+    if any(h.failed or not h.inlined for h in inl.helpers.values()) or len(inl.helpers) != len(defs):
+        return fi
+    if any(isinstance(n, ast.Name) and n.id in alias.values() for n in ast.walk(new)):
+        return fi
+    new.name = fi.node.name
+    new.decorator_list = [clone(d) for d in fi.node.decorator_list]
+    ast.fix_missing_locations(new)
+    set_parents(new)
+    new._parent = parent(fi.node)  # noqa: SLF001
+    out = FuncInfo(fi.name, fi.qualname, new, fi.module, fi.cls)
+    memo[id(fi.node)] = (out, fi.node)
+    memo[id(new)] = (out, new)
+    return out
+
+
+def _method(ctx: Ctx, cls: str, name: str, rel: str) -> FuncInfo:
+    """the anchor method as the rules should read it (new decorators merged in)"""
+    return _undecorated(ctx.repo, ctx.repo.method(cls, name, rel))
+
+
 def _follow(ctx: Ctx, fi: FuncInfo, call: ast.AST, tag: str, getsub: tuple[str, ...] = (), generators: bool = False) -> _Frame | None:
     """The frame of a call that has exactly one possible target whose body can be read (method of the own class, module function)."""
     call = strip_cast(call)
@@ -841,14 +1474,24 @@ def _follow(ctx: Ctx, fi: FuncInfo, call: ast.AST, tag: str, getsub: tuple[str, 
             return None
         fr = _Frame(fi, call, _unrolled(ctx, meth), tag, getsub, self_expr=ctor)
         return fr if fr.ok else None
-    if not own and not isinstance(f, ast.Name):
+    # module.function(...) / Class.static_method(...): a plain name that is no local of fi in front of the dot
+    qualified = not own and isinstance(f, ast.Attribute) and isinstance(f.value, ast.Name) and f.value.id not in fi.params() and not local_defs(fi, f.value.id)
+    if not own and not qualified and not isinstance(f, ast.Name):
         return None
     try:
         tg = ctx.repo.resolve_call(fi, call)
+        if qualified and not tg:
+            # <imported module>.function(...)
+            r = ctx.repo.resolve_name(fi.module, f.value.id)
+            if isinstance(r, tuple) and r[0] == "module" and r[1] is not None and f.attr in r[1].functions:
+                tg = [r[1].functions[f.attr]]
     except Exception:  # noqa: BLE001
         return None
     if len(tg) != 1 or tg[0].is_async or tg[0].node is fi.node or isinstance(tg[0].node, ast.Lambda):
         return None
+    tg = [_undecorated(ctx.repo, tg[0])]
+    if qualified and tg[0].cls is not None and not {"staticmethod", "classmethod"} & set(tg[0].decorator_names()):
+        return None                               # Class.method(obj, ...): the receiver is an argument, not the thing before the dot
     if _is_generator(tg[0].node) and not generators:
         return None
     if isinstance(f, ast.Name) and tg[0].name == "__init__":
@@ -936,7 +1579,28 @@ def _private_helper(fi: FuncInfo, fr: "_Frame") -> bool:
     h = fr.hf
     if fr.self_expr is not None:
         return True
-    return h.cls is not None and h.cls is fi.cls and h.name.startswith("_") and not h.name.startswith("__")
+    if h.cls is not None and h.name.startswith("_") and not h.name.startswith("__"):
+        # a private method of the class itself or of one of its bases / mixins
+        if h.cls is fi.cls or (fi.cls is not None and h.cls in fi.cls.mro()):
+            return True
+    # a function the reviewed tree does not have (a block that moved into a new helper, possibly in a new module)
+    return _is_new(h)
+
+
+def _is_new(h: FuncInfo) -> bool:
+    """the function is not part of the reviewed tree (no entry in the frozen table of its file, or a file the table does not know)"""
+    try:
+        from ..localnames import load_table
+        table = load_table()
+    except Exception:  # noqa: BLE001
+        return False
+    if not table or h.name.startswith("__"):
+        return False
+    rel = h.module.relpath
+    if rel not in table:
+        # a whole new file counts only next to reviewed files (the table covers every file of the reviewed tree)
+        return rel.startswith("ipv8/")
+    return h.qualname not in table[rel]
 
 
 class _FinalAtom:
@@ -1493,18 +2157,30 @@ class _Paths:
 
 
 # ------------------------------------------------------------------------------------ registration table
-def _table_writes(fi: FuncInfo, table: str) -> list:
-    """(statement, key expression, value expression) of every `table[k] = v` / `table.update({k: v})` / `table.__setitem__(k, v)` / `table |= {k: v}` in fi"""
+def _table_writes(fi: FuncInfo, table: str, told=None) -> list:
+    """
+    (statement, key expression, value expression) of every `table[k] = v` / `table.update({k: v})` / `table.__setitem__(k, v)` / `table |= {k: v}` in fi;
+    told(e): the text of an expression of fi in the terms `table` is spelled in (a helper that is handed the community, or the table itself, under another name)
+    """
     out = []
+    def nm(e: ast.AST):
+        if told is None:
+            return norm(e)
+        try:
+            return told(e)
+        except AnalysisError:
+            raise
+        except Exception:  # noqa: BLE001
+            return None
     for st in walk_no_nested(fi.node):
-        if isinstance(st, ast.Assign) and len(st.targets) == 1 and isinstance(st.targets[0], ast.Subscript) and norm(st.targets[0].value) == table \
+        if isinstance(st, ast.Assign) and len(st.targets) == 1 and isinstance(st.targets[0], ast.Subscript) and nm(st.targets[0].value) == table \
                 and not isinstance(st.targets[0].slice, ast.Slice):
             out.append((st, st.targets[0].slice, st.value))
-        elif isinstance(st, ast.AnnAssign) and st.value is not None and isinstance(st.target, ast.Subscript) and norm(st.target.value) == table:
+        elif isinstance(st, ast.AnnAssign) and st.value is not None and isinstance(st.target, ast.Subscript) and nm(st.target.value) == table:
             out.append((st, st.target.slice, st.value))
-        elif isinstance(st, ast.AugAssign) and norm(st.target) == table and isinstance(st.op, ast.BitOr) and isinstance(st.value, ast.Dict) and len(st.value.keys) == 1 and st.value.keys[0] is not None:
+        elif isinstance(st, ast.AugAssign) and nm(st.target) == table and isinstance(st.op, ast.BitOr) and isinstance(st.value, ast.Dict) and len(st.value.keys) == 1 and st.value.keys[0] is not None:
             out.append((st, st.value.keys[0], st.value.values[0]))
-        elif isinstance(st, ast.Expr) and isinstance(st.value, ast.Call) and isinstance(st.value.func, ast.Attribute) and norm(st.value.func.value) == table and not st.value.keywords:
+        elif isinstance(st, ast.Expr) and isinstance(st.value, ast.Call) and isinstance(st.value.func, ast.Attribute) and nm(st.value.func.value) == table and not st.value.keywords:
             c = st.value
             if c.func.attr == "update" and len(c.args) == 1 and isinstance(c.args[0], ast.Dict) and len(c.args[0].keys) == 1 and c.args[0].keys[0] is not None:
                 out.append((st, c.args[0].keys[0], c.args[0].values[0]))
@@ -1522,7 +2198,7 @@ def known_hash_layout(ctx: Ctx) -> dict:
     registration - and its five minutes - that the user did not ask for.
     """
     _use(ctx)
-    fi = ctx.repo.method("IdentityCommunity", "add_known_hash", IC)
+    fi = _method(ctx, "IdentityCommunity", "add_known_hash", IC)
     table = "self.known_attestation_hashes"
     writes = [(fi, (lambda e: e), st, k, v) for st, k, v in _table_writes(fi, table)]
 
@@ -1532,15 +2208,19 @@ def known_hash_layout(ctx: Ctx) -> dict:
             if fr is None or not _private_helper(g, fr) or fr.hf.node in seen or depth > 2:
                 continue
             l2 = (lambda e, fr=fr, lift=lift: lift(fr.lift(e)))
-            writes.extend((fr.hf, l2, st, k, v) for st, k, v in _table_writes(fr.hf, table))
+            writes.extend((fr.hf, l2, st, k, v) for st, k, v in _table_writes(fr.hf, table, lambda e, l2=l2: _x(fi, l2(e))))
             below(fr.hf, l2, depth + 1, (*seen, g.node))
     below(fi, (lambda e: e), 1, ())
     ctx.anchor(writes, "known_attestation_hashes[...] = (...) in add_known_hash")
+    ctx.repo.__dict__["_c17_examined_writes"] = {id(st) for _o, _l, st, _k, _v in writes}
     p = fi.params()
 
     def slots(owner: FuncInfo, lift, val: ast.AST):
         """({slot: position}, attribute names) of a stored value whose four components are the call's name, time(), subject key and metadata; else None"""
         tup = resolve(owner, val)
+        made = _pure_call_value(owner, tup) if isinstance(tup, ast.Call) and _record_fields(owner.module, tup.func) is None else None
+        if made is not None and not any(isinstance(n, ast.Name) and n.id.startswith("v_") for n in ast.walk(made)):
+            tup = strip_cast(made)                # a one-expression factory (possibly of another module): what it builds
         attrs: list = []
         if isinstance(tup, ast.Call) and not any(isinstance(a, ast.Starred) for a in tup.args) and all(k.arg is not None for k in tup.keywords):
             rf = _record_fields(owner.module, tup.func)
@@ -1664,6 +2344,9 @@ def _attested_refusal(ctx: Ctx, fi: FuncInfo, approving: list, text, local, over
             return "key" if isinstance(fn, ast.Attribute) and text(fn) + "(x)" == authority("x") else None
         if isinstance(g, (ast.GeneratorExp, ast.ListComp, ast.SetComp)) and len(g.generators) == 1:
             c = g.generators[0]
+            if not c.is_async and isinstance(c.target, ast.Name) and not c.ifs and isinstance(g.elt, ast.Name) and g.elt.id == c.target.id and not isinstance(g, ast.SetComp) \
+                    and text(c.iter) != over:
+                return looked_at(c.iter)          # (x for x in <inner>): the elements of <inner>, one by one (`yield from <inner>`)
             if c.is_async or not isinstance(c.target, ast.Name) or text(c.iter) != over:
                 return None
             att = c.target.id
@@ -1707,21 +2390,72 @@ def _attested_refusal(ctx: Ctx, fi: FuncInfo, approving: list, text, local, over
         return isinstance(e, ast.Call) and chain(e.func) == "any" and mykey in text(e) and "get_authority" in norm(e) and \
             any(isinstance(g, (ast.GeneratorExp, ast.ListComp)) and any("get_authority" in norm(c.iter) for c in g.generators) for g in ast.walk(e))
 
-    loops = [l for l in walk_no_nested(fi.node) if isinstance(l, (ast.For, ast.AsyncFor)) and isinstance(l.target, ast.Name) and text(l.iter) == over]
+    def indexed_scan(l: ast.While):
+        """
+        (sequence, index) when l is `while i < len(seq): ... seq[i] ... i += 1` visiting every element of seq in order: i is
+        set to 0 once outside the loop and advanced by exactly one as a top-level statement of the loop body, nothing in the
+        body continues the loop early, and seq is a single-assignment local that is only measured and indexed.
+        """
+        t = l.test
+        if not (isinstance(t, ast.Compare) and len(t.ops) == 1):
+            return None
+        a, op, b = t.left, t.ops[0], t.comparators[0]
+        if isinstance(op, ast.Gt):
+            a, b, op = b, a, ast.Lt()
+        if not (isinstance(op, (ast.Lt, ast.NotEq)) and isinstance(a, ast.Name) and isinstance(b, ast.Call) and chain(b.func) == "len" and len(b.args) == 1 and not b.keywords
+                and isinstance(b.args[0], ast.Name)):
+            return None
+        i, seq = a.id, b.args[0].id
+        if i in fi.params() or seq in fi.params() or single_def(fi, seq) is None or single_def(fi, seq)[1] is not None:
+            return None
+        ds = local_defs(fi, i)
+        inits = [st for st, v, idx in ds if isinstance(st, (ast.Assign, ast.AnnAssign)) and idx is None and v is not None and const_value(v) == 0 and not isinstance(const_value(v), bool)]
+        steps = [st for st, _v, _idx in ds if isinstance(st, ast.AugAssign) and isinstance(st.op, ast.Add) and const_value(st.value) == 1 and not isinstance(const_value(st.value), bool)]
+        if len(ds) != 2 or len(inits) != 1 or len(steps) != 1 or steps[0] not in l.body or l in list(ancestors(inits[0])):
+            return None
+        todo = list(l.body)
+        while todo:
+            x = todo.pop()
+            if isinstance(x, ast.Continue):
+                return None
+            if isinstance(x, (ast.For, ast.AsyncFor, ast.While, ast.FunctionDef, ast.AsyncFunctionDef, ast.ClassDef, ast.Lambda)):
+                continue
+            todo.extend(ast.iter_child_nodes(x))
+        for n in ast.walk(fi.node):
+            if isinstance(n, ast.Name) and n.id == seq and isinstance(n.ctx, ast.Load):
+                par = parent(n)
+                if not ((isinstance(par, ast.Call) and chain(par.func) == "len" and par.args == [n]) or (isinstance(par, ast.Subscript) and par.value is n and isinstance(par.ctx, ast.Load))):
+                    return None
+        return seq, i
+
+    # the scans over the attestations: (loop, text of "authority of the attestation this iteration looks at", edge predicate "the scan is exhausted")
+    scans = []
+    for l in walk_no_nested(fi.node):
+        if isinstance(l, (ast.For, ast.AsyncFor)) and isinstance(l.target, ast.Name):
+            loopnodes = [n for n in cfg.by_ast.get(id(l), []) if n.kind == "loop"]
+            done = (lambda u, lab, loopnodes=loopnodes: u in loopnodes and lab is False)
+            if text(l.iter) == over:
+                scans.append((l, authority(local(l.target.id)), done, bool(loopnodes)))
+            elif len(local_defs(fi, l.target.id)) == 1 and l.target.id not in fi.params() and looked_at(_expand(fi, l.iter)) == "key":
+                # for authority in (get_authority(a) for a in <attestations>): the loop variable is the authority itself (inline, map(), or a generator helper)
+                scans.append((l, local(l.target.id), done, bool(loopnodes)))
+        elif isinstance(l, ast.While):
+            ix = indexed_scan(l)
+            if ix is not None and text(ast.Name(id=ix[0], ctx=ast.Load())) in (over, _c(f"list({over})"), _c(f"tuple({over})")):
+                elem = text(ast.Subscript(value=ast.Name(id=ix[0], ctx=ast.Load()), slice=ast.Name(id=ix[1], ctx=ast.Load()), ctx=ast.Load()))
+                scans.append((l, authority(elem), (lambda u, lab, l=l: u.kind == "cond" and u.ast is l.test and lab is False), True))
     verdict = True
     for p in approving:
         ok = False
         if p.holds(lambda f: refusing_fact(_expanded_fact(fi, f, p.getsub))):
             ok = single_key
-        for l in loops:
-            att = l.target.id
-            loopnodes = [n for n in cfg.by_ast.get(id(l), []) if n.kind == "loop"]
+        for l, elem_authority, exhausted, located in scans:
             refused = False
             for n in cfg.nodes:
                 if n.kind != "cond" or l not in list(ancestors(n.ast)):
                     continue
                 f = fact_of(n.ast, True)
-                if f.op == "eq" and {text(f.left), text(f.right)} == {authority(local(att)), mykey}:
+                if f.op == "eq" and {text(f.left), text(f.right)} == {elem_authority, mykey}:
                     # once the comparison succeeds no approving arrival is left
                     if not p.escapes_from([v for v, la in n.succ if la is f.pos], p.sites):
                         refused = refused or single_key
@@ -1732,7 +2466,7 @@ def _attested_refusal(ctx: Ctx, fi: FuncInfo, approving: list, text, local, over
                     elif not p.escapes_from([v for v, la in n.succ if la is True], p.sites):
                         refused = True
             # the approving arrival lies behind the exhausted loop (every attestation over this metadata has been looked at)
-            after = bool(loopnodes) and p.passes(lambda u, lab: u in loopnodes and lab is False)
+            after = located and p.passes(exhausted)
             ok = ok or (refused and after)
         if not ok and depth < 2:
             # the decision is taken by a helper whose verdict every approving arrival has tested
@@ -1762,7 +2496,7 @@ def _expanded_fact(fi: FuncInfo, f: Fact, getsub: tuple[str, ...] = ()) -> Fact:
 def rule_should_sign(ctx: Ctx) -> None:  # noqa: C901, PLR0912, PLR0915
     repo = ctx.repo
     lay = known_hash_layout(ctx)
-    fi = _unrolled(ctx, repo.method("IdentityCommunity", "should_sign", IC))
+    fi = _unrolled(ctx, _method(ctx, "IdentityCommunity", "should_sign", IC))
     pseud, meta = fi.params()[1], fi.params()[2]
     TABLE = "self.known_attestation_hashes"
     # tables read with .get(), locals unpacked from a tuple, registration fields read by attribute
@@ -1813,14 +2547,17 @@ def rule_should_sign(ctx: Ctx) -> None:  # noqa: C901, PLR0912, PLR0915
             return False
         l, r = _expand(fi, f.left, GS), _expand(fi, f.right, GS)
         # not (reg_time + 300 < time())
+        def n300(x: ast.AST) -> bool:
+            # the window by value: 300, 5 * 60, a module constant holding either ...
+            return _is_number(_fold_value(fi.module, x), 300)
         if isinstance(l, ast.BinOp) and isinstance(l.op, ast.Add) and _is_time_call(r):
-            return sorted([norm(l.left), norm(l.right)]) == sorted([reg("time"), "300"])
+            return (norm(l.left) == reg("time") and n300(l.right)) or (norm(l.right) == reg("time") and n300(l.left))
         # not (300 < time() - reg_time)
-        if const_value(l) == 300 and isinstance(r, ast.BinOp) and isinstance(r.op, ast.Sub):
+        if n300(l) and isinstance(r, ast.BinOp) and isinstance(r.op, ast.Sub):
             return _is_time_call(r.left) and norm(r.right) == reg("time")
         # not (reg_time < time() - 300)
         if norm(l) == reg("time") and isinstance(r, ast.BinOp) and isinstance(r.op, ast.Sub):
-            return _is_time_call(r.left) and const_value(r.right) == 300 and not isinstance(const_value(r.right), bool)
+            return _is_time_call(r.left) and n300(r.right)
         return False
 
     def has_key(f, k: str) -> bool:
@@ -1889,7 +2626,7 @@ def rule_should_sign(ctx: Ctx) -> None:  # noqa: C901, PLR0912, PLR0915
                 return any(meta_ok(g, depth + 1) for g in [*parts(f.left.test, pol), *own])
             return branch(True, f.left.body) and branch(False, f.left.orelse)
         return False
-    ga = repo.method("IdentityDatabase", "get_authority", ID)
+    ga = _method(ctx, "IdentityDatabase", "get_authority", ID)
     ga_ret = norm(ga.node.returns) if ga.node.returns is not None else ""
     single_key = ga_ret in ("bytes", "'bytes'")
     over = _c(f"{pseud}.database.get_attestations_over({meta})")
@@ -1938,13 +2675,21 @@ def rule_should_sign(ctx: Ctx) -> None:  # noqa: C901, PLR0912, PLR0915
     site = approving[0].sites[0].ast if approving and approving[0].sites[0].ast is not None else fi.node
     ctx.check(ok, "should-sign", fi, site, "refuses when one of the attestations over this metadata is already by us", "should_sign attests the same metadata twice")
     # registrations are written only by add_known_hash
-    for m, f2, a in repo.attribute_uses("known_attestation_hashes"):
+    view = _state_view(ctx, "known_attestation_hashes")
+    uses = list(repo.attribute_uses("known_attestation_hashes"))
+    if view is not None and view[1] != "known_attestation_hashes":
+        uses += [(m, f2, a) for m, f2, a in repo.attribute_uses(view[1]) if f2 is not None and f2.node is view[3].node]
+    for m, f2, a in uses:
         p = parent(a)
         w = isinstance(a.ctx, ast.Store) or (isinstance(p, ast.Subscript) and isinstance(p.ctx, (ast.Store, ast.Del))) or \
             (isinstance(p, ast.Attribute) and p.attr in _MUTATORS and isinstance(parent(p), ast.Call))
         if w:
             allowed = f2 is not None and (f2.qualname in ("IdentityCommunity.add_known_hash", "IdentityCommunity.__init__")
+                                          or _view_creation(ctx, "known_attestation_hashes", f2, a)
                                           or _only_reached_from(ctx, f2, ("IdentityCommunity.add_known_hash", "IdentityCommunity.__init__")))
+            if allowed and (f2.cls is None or f2.cls.name != "IdentityCommunity") and not _view_creation(ctx, "known_attestation_hashes", f2, a):
+                # a write that moved out of the class (new module-level helper / wrapper): it has to be one of the writes whose key and value were examined above
+                allowed = id(enclosing_stmt(a)) in repo.__dict__.get("_c17_examined_writes", ()) or _only_reached_from(ctx, f2, ("IdentityCommunity.__init__",))
             ctx.check(allowed, "should-sign", f2 or m.relpath, enclosing_stmt(a),
                       "registrations written only by add_known_hash", "the consent table is written outside add_known_hash")
 
@@ -1953,9 +2698,15 @@ _MUTATORS = ("update", "setdefault", "pop", "clear", "popitem", "__setitem__", "
 
 
 def _only_reached_from(ctx: Ctx, f2: FuncInfo, allowed: tuple[str, ...], depth: int = 0) -> bool:
-    """f2 is a private method that is only ever called (as self.f2(...)) by the allowed members or by such private methods."""
-    if f2.cls is None or not f2.name.startswith("_") or f2.name.startswith("__") or depth > 3:
+    """
+    f2 is a private method that is only ever called (as self.f2(...)) by the allowed members or by such private methods -
+    or a function the reviewed tree does not have (a module-level helper, possibly of a new private module; the wrapper
+    of a new decorator) whose every call site lies in an allowed member or in such a helper and that is never used as a value.
+    """
+    if depth > 3 or f2.name.startswith("__"):
         return False
+    if f2.cls is None or not f2.name.startswith("_"):
+        return _new_function_only_reached_from(ctx, f2, allowed, depth)
     n = 0
     for m, g, c in ctx.repo.callers_of_name(f2.name):
         if g is None:
@@ -1977,6 +2728,51 @@ def _only_reached_from(ctx: Ctx, f2: FuncInfo, allowed: tuple[str, ...], depth: 
     for m, g, a in ctx.repo.attribute_uses(f2.name):
         if not (isinstance(parent(a), ast.Call) and parent(a).func is a):
             return False
+    return n > 0
+
+
+def _new_function_only_reached_from(ctx: Ctx, f2: FuncInfo, allowed: tuple[str, ...], depth: int) -> bool:  # noqa: C901, PLR0911
+    if not _is_new(f2) or f2.cls is not None and not f2.name.startswith("_"):
+        return False
+    outer = next((a for a in ancestors(f2.node) if isinstance(a, (ast.FunctionDef, ast.AsyncFunctionDef))), None)
+    if outer is not None:
+        # the wrapper a new decorator returns: it runs as (part of) every function the decorator is applied to
+        dfi = ctx.repo.info(outer) if hasattr(ctx.repo, "info") else None
+        if dfi is None or not _is_new(dfi) or _wrapper_of(outer, None) is None or _wrapper_of(outer, None)[0] is not f2.node:
+            return False
+        users = [g for g in ctx.repo.all_functions() if any((isinstance(d, ast.Name) and d.id == outer.name) or (isinstance(d, ast.Attribute) and d.attr == outer.name)
+                                                            for d in getattr(g.node, "decorator_list", []))]
+        for m in ctx.repo.modules.values():
+            for x in ast.walk(m.tree):
+                if isinstance(x, ast.Name) and x.id == outer.name and isinstance(x.ctx, ast.Load) and not any(x in getattr(g.node, "decorator_list", []) for g in users):
+                    return False                  # the decorator is also used in some other way
+        return bool(users) and all(g.qualname in allowed or _only_reached_from(ctx, g, allowed, depth + 1) for g in users)
+    n = 0
+    for m, g, c in ctx.repo.callers_of_name(f2.name):
+        try:
+            tg = ctx.repo.resolve_call(g, c) if g is not None else []
+            if not tg and isinstance(c.func, ast.Attribute) and isinstance(c.func.value, ast.Name):
+                r = ctx.repo.resolve_name(m, c.func.value.id)
+                if isinstance(r, tuple) and r[0] == "module" and r[1] is f2.module:
+                    tg = [f2]
+        except Exception:  # noqa: BLE001
+            return False
+        if f2 not in tg:
+            if isinstance(c.func, ast.Name) and m is f2.module and not tg:
+                return False
+            continue
+        n += 1
+        if g is None or (g.qualname not in allowed and not _only_reached_from(ctx, g, allowed, depth + 1)):
+            return False
+    # the function object must not escape: every mention of its name is the callee of a call or an import
+    for m in ctx.repo.modules.values():
+        if m is not f2.module and f2.name not in m.imports and not any(v[0].endswith(f2.module.name.split(".")[-1]) for v in m.imports.values() if v):
+            continue
+        for x in ast.walk(m.tree):
+            if isinstance(x, ast.Name) and x.id == f2.name and isinstance(x.ctx, ast.Load) and not (isinstance(parent(x), ast.Call) and parent(x).func is x):
+                return False
+            if isinstance(x, ast.Attribute) and x.attr == f2.name and isinstance(x.ctx, ast.Load) and not (isinstance(parent(x), ast.Call) and parent(x).func is x):
+                return False
     return n > 0
 
 
@@ -2003,6 +2799,124 @@ def _extra_fields_of(fi: FuncInfo, dc: ast.AST | None, tr: str) -> bool:
 
 
 _UNK = "\x00"          # an unknown piece of text inside a partially known string
+
+
+class _Obj:
+    """A record object whose construction is visible: `Class(args)` evaluated in function fi, whose parameters hold the texts / objects in consts."""
+
+    def __init__(self, cls, call: ast.Call, fi: FuncInfo, consts: dict) -> None:
+        self.cls, self.call, self.fi, self.consts = cls, call, fi, consts
+
+
+def _module_scope(m) -> FuncInfo:
+    """a function-like scope without parameters and locals, for reading expressions written at the top level of module m"""
+    memo = m.tree.__dict__
+    if "_c17_scope" not in memo:
+        node = ast.FunctionDef(name="<module>", args=ast.arguments(posonlyargs=[], args=[], vararg=None, kwonlyargs=[], kw_defaults=[], kwarg=None, defaults=[]),
+                               body=[ast.Pass()], decorator_list=[], returns=None, type_comment=None, type_params=[])
+        ast.fix_missing_locations(node)
+        set_parents(node)
+        memo["_c17_scope"] = node
+    return FuncInfo("<module>", "<module>", memo["_c17_scope"], m, None)
+
+
+def _obj_of(ctx: Ctx, fi: FuncInfo, e: ast.AST | None, consts: dict, depth: int = 0):
+    """the _Obj an expression denotes (a constructor call of a repository class: inline, in a single-assignment local, in a parameter the caller fixed, in a module constant written once), else None"""
+    if e is None or depth > 6:
+        return None
+    e = strip_cast(e)
+    try:
+        if isinstance(e, ast.Name):
+            if e.id in consts and not local_defs(fi, e.id):
+                return consts[e.id] if isinstance(consts[e.id], _Obj) else None
+            if e.id in fi.params():
+                return None
+            d = single_def(fi, e.id)
+            if d is not None:
+                return _obj_of(ctx, fi, d[0], consts, depth + 1) if d[1] is None else None
+            if local_defs(fi, e.id):
+                return None
+            r = ctx.repo.resolve_name(fi.module, e.id)
+            if isinstance(r, tuple) and r[0] == "const":
+                own = next((k for k, x in r[1].constants.items() if x is r[2]), None)
+                if own is not None and _written_once(r[1], own):
+                    return _obj_of(ctx, _module_scope(r[1]), r[2], {}, depth + 1)
+            return None
+        if isinstance(e, ast.Call) and not any(isinstance(a, ast.Starred) for a in e.args) and all(k.arg is not None for k in e.keywords):
+            c = ctx.repo.resolve_class_expr(fi.module, e.func)
+            if c is not None and not any(c.lookup(x) is not None for x in ("__new__", "__getattr__", "__getattribute__", "__setattr__")):
+                return _Obj(c, e, fi, consts)
+    except AnalysisError:
+        raise
+    except Exception:  # noqa: BLE001
+        return None
+    return None
+
+
+def _obj_attr_patterns(ctx: Ctx, obj: _Obj, attr: str, depth: int) -> list[str] | None:  # noqa: C901, PLR0911, PLR0912
+    """
+    The texts `<obj>.<attr>` can evaluate to: a read-only @property is its returned expressions with self being obj; a
+    stored attribute is what __init__ stored there (parameters being the constructor arguments), unknown text when any
+    other code may store it; a NamedTuple / dataclass field is the constructor argument; a class constant is itself.
+    """
+    cls = obj.cls
+    meth = cls.lookup(attr)
+    if meth is not None:
+        if not set(meth.decorator_names()) & {"property", "cached_property", "functools.cached_property"} or len(meth.node.decorator_list) != 1 or meth.is_async:
+            return None
+        if any(attr in k.methods and k.methods[attr] is not meth for k in cls.all_subclasses()):
+            return None
+        rets = [r for r in walk_no_nested(meth.node) if isinstance(r, ast.Return)]
+        params = meth.params()
+        if not rets or len(params) != 1 or _is_generator(meth.node):
+            return None
+        out: list[str] = []
+        for r in rets:
+            ps = _str_patterns(ctx, meth, r.value, {params[0]: obj}, depth + 1) if r.value is not None else None
+            if ps is None:
+                return None
+            out.extend(ps)
+        return out
+    fe = _field_expr(obj.fi, obj.call, ("attr", attr)) if _record_fields(obj.fi.module, obj.call.func) is not None else None
+    if fe is not None:
+        return _str_patterns(ctx, obj.fi, fe, obj.consts, depth + 1)
+    init = cls.lookup("__init__")
+    if init is not None and not init.is_async:
+        fr = _Frame(obj.fi, obj.call, init, "i_", self_expr=obj.call)
+        ip = init.params()
+        if not fr.ok or not ip:
+            return None
+        iconsts: dict = {}
+        for name, a in fr.bind.items():
+            if name == ip[0] or local_defs(init, name):
+                continue
+            ps = _str_patterns(ctx, obj.fi, a, obj.consts, depth + 1)
+            if ps is not None:
+                iconsts[name] = ps
+        vals, other = [], False
+        for k in [cls, *cls.mro()[1:], *cls.all_subclasses()]:
+            for mname, m2 in k.methods.items():
+                for st in ast.walk(m2.node):
+                    if isinstance(st, ast.Attribute) and st.attr == attr and isinstance(st.ctx, (ast.Store, ast.Del)):
+                        par = parent(st)
+                        if m2 is init and isinstance(st.value, ast.Name) and st.value.id == ip[0] and isinstance(par, (ast.Assign, ast.AnnAssign)) and par.value is not None \
+                                and (par.target if isinstance(par, ast.AnnAssign) else par.targets[0] if len(par.targets) == 1 else None) is st:
+                            vals.append(par.value)
+                        else:
+                            other = True
+        if vals:
+            out = []
+            for v in vals:
+                ps = _str_patterns(ctx, init, v, iconsts, depth + 1)
+                if ps is None:
+                    return None
+                out.extend(ps)
+            return [*out, _UNK] if other else out
+    a = cls.lookup_attr(attr)
+    if a is not None:
+        owner = next((k for k in cls.mro() if attr in k.attrs), cls)
+        return _str_patterns(ctx, _module_scope(owner.module), a, {}, depth + 1)
+    return None
 
 
 def _str_patterns(ctx: Ctx, fi: FuncInfo, e: ast.AST | None, consts: dict, depth: int = 0) -> list[str] | None:  # noqa: C901, PLR0911, PLR0912
@@ -2055,7 +2969,7 @@ def _str_patterns(ctx: Ctx, fi: FuncInfo, e: ast.AST | None, consts: dict, depth
         return None if a is None and b is None else [*(a or [_UNK]), *(b or [_UNK])]
     if isinstance(e, ast.Name):
         if e.id in consts and not local_defs(fi, e.id):
-            return consts[e.id]
+            return consts[e.id] if not isinstance(consts[e.id], _Obj) else None
         ds = local_defs(fi, e.id)
         if ds:
             out: list[str] = []
@@ -2065,6 +2979,13 @@ def _str_patterns(ctx: Ctx, fi: FuncInfo, e: ast.AST | None, consts: dict, depth
                     return None if not out else [*out, _UNK]
                 out.extend(ps)
             return out
+    if isinstance(e, ast.Attribute):
+        # a field or read-only property of a record object whose construction is visible (statement text derived from a table description)
+        obj = _obj_of(ctx, fi, e.value, consts)
+        if obj is not None:
+            ps = _obj_attr_patterns(ctx, obj, e.attr, depth + 1)
+            if ps is not None:
+                return ps
     if isinstance(e, ast.Subscript) and not isinstance(e.slice, ast.Slice):
         table = None
         if isinstance(e.value, ast.Attribute) and isinstance(e.value.value, ast.Name) and e.value.value.id in ("self", "cls") and fi.cls is not None:
@@ -2116,13 +3037,19 @@ def _sql_writes(ctx: Ctx, fi: FuncInfo, table: str, consts: dict | None = None, 
     if depth < 3:
         for c in calls(fi):
             fr = _follow(ctx, fi, c, "q_")
-            if fr is None or fr.hf.cls is None or fr.hf.node in seen or fr.hf.node is fi.node or fr.hf.module is not fi.module:
-                continue                          # only helpers of the database module itself (not the generic execute())
+            if fr is None or fr.hf.node in seen or fr.hf.node is fi.node:
+                continue
+            if not (fr.hf.cls is not None and fr.hf.module is fi.module) and not _is_new(fr.hf):
+                continue                          # only helpers of the database module itself or new ones (not the generic execute())
             sub = {}
             for name, a in fr.bind.items():
                 ps = _str_patterns(ctx, fi, a, consts)
                 if ps is not None:
                     sub[name] = ps
+                else:
+                    obj = _obj_of(ctx, fi, a, consts)
+                    if obj is not None:
+                        sub[name] = obj
             out.extend(_sql_writes(ctx, fr.hf, table, sub, depth + 1, (*seen, fi.node)))
     return out
 
@@ -2137,7 +3064,7 @@ def rule_attested_memory(ctx: Ctx) -> None:
     """
     repo = ctx.repo
     for meth, table in (("insert_metadata", "Metadata"), ("insert_attestation", "Attestations")):
-        fi = repo.method("IdentityDatabase", meth, ID)
+        fi = _method(ctx, "IdentityDatabase", meth, ID)
         texts = _sql_writes(ctx, fi, table)
         if not texts:
             raise AnalysisError(f"anchor-lost: no SQL statement writing table {table} found in IdentityDatabase.{meth}")
@@ -2256,6 +3183,52 @@ def _solicited_fact(f: Fact, lay: dict[str, int], peerkey: str) -> bool:  # noqa
     return False
 
 
+def _loop_entries(hf: FuncInfo, lay: dict, told=None) -> tuple:
+    """
+    (entries, keys): spellings of "a registration taken from the table" and names of "the subject key of a registration
+    taken from the table" inside hf - the targets of its for loops over the registration table (values / items / keys,
+    or a lazy selection of the registered subject keys), each a local that nothing else assigns.  told(e): the
+    canonical text of an expression of hf in the terms the table is spelled in (default: hf's own).
+    """
+    table = "self.known_attestation_hashes"
+    told = told or (lambda e: _x(hf, e))
+    entries: set[str] = set()
+    keys: set[str] = set()
+    for l in walk_no_nested(hf.node):
+        if not isinstance(l, ast.For):
+            continue
+        names = [n.id for n in ast.walk(l.target) if isinstance(n, ast.Name)]
+        if any(len(local_defs(hf, n)) != 1 or n in hf.params() for n in names):
+            continue
+        it = told(l.iter)
+        if it == f"{table}.values()" and isinstance(l.target, ast.Name):
+            entries.add(l.target.id)
+        elif it == f"{table}.items()" and isinstance(l.target, ast.Tuple) and len(l.target.elts) == 2 and all(isinstance(t, ast.Name) for t in l.target.elts):
+            entries |= {l.target.elts[1].id, f"{table}[{l.target.elts[0].id}]"}
+        elif it in (table, f"{table}.keys()", f"list({table})", f"list({table}.keys())") and isinstance(l.target, ast.Name):
+            entries.add(f"{table}[{l.target.id}]")
+        elif isinstance(l.target, ast.Name):
+            # for key in (t[<key position>] for t in table.values()) - spelled inline, as map(...), or by a generator helper
+            try:
+                sel = _unwrapped_iter(ast.parse(it, mode="eval").body)
+            except SyntaxError:
+                continue
+            if _selection(sel, lay, "\x00no sender\x00") == "key":
+                keys.add(l.target.id)
+    return entries, keys
+
+
+def _loop_eq(hf: FuncInfo, f: Fact, entries: set, keys: set, lay: dict, is_peerkey) -> bool:
+    """the fact says: the subject key of a registration the loop took from the table equals the sender's key"""
+    if f.op != "eq" or not f.pos:
+        return False
+    for a, b in ((f.left, f.right), (f.right, f.left)):
+        a2 = _expand(hf, a, ("self.known_attestation_hashes",))
+        if (_reg_field(a2, entries, lay, "public_key") or (isinstance(strip_cast(a), ast.Name) and strip_cast(a).id in keys)) and is_peerkey(b):
+            return True
+    return False
+
+
 def _solicited_call(ctx: Ctx, fi: FuncInfo, call: ast.AST, lay: dict[str, int], peerkey: str, depth: int = 0, *, outcome=None, path: tuple = ()) -> bool:  # noqa: C901, PLR0913
     """
     `call` is a helper of the own class that hands back something truthy (or, with outcome=(sat, truth, key) and path,
@@ -2268,29 +3241,10 @@ def _solicited_call(ctx: Ctx, fi: FuncInfo, call: ast.AST, lay: dict[str, int], 
         return False
     hf = fr.hf
     table = "self.known_attestation_hashes"
-    entries: set[str] = set()                    # spellings of "a registration taken from the table" inside the helper
-    for l in walk_no_nested(hf.node):
-        if not isinstance(l, ast.For):
-            continue
-        it = _x(hf, l.iter)
-        names = [n.id for n in ast.walk(l.target) if isinstance(n, ast.Name)]
-        if any(len(local_defs(hf, n)) != 1 or n in hf.params() for n in names):
-            continue
-        if it == f"{table}.values()" and isinstance(l.target, ast.Name):
-            entries.add(l.target.id)
-        elif it == f"{table}.items()" and isinstance(l.target, ast.Tuple) and len(l.target.elts) == 2 and all(isinstance(t, ast.Name) for t in l.target.elts):
-            entries |= {l.target.elts[1].id, f"{table}[{l.target.elts[0].id}]"}
-        elif it in (table, f"{table}.keys()", f"list({table})", f"list({table}.keys())") and isinstance(l.target, ast.Name):
-            entries.add(f"{table}[{l.target.id}]")
+    entries, keys = _loop_entries(hf, lay, lambda e: _x(fi, fr.lift(e)))
 
     def loop_eq(f: Fact) -> bool:
-        if f.op != "eq" or not f.pos:
-            return False
-        for a, b in ((f.left, f.right), (f.right, f.left)):
-            a2 = _expand(hf, a, (table,))
-            if _reg_field(a2, entries, lay, "public_key") and _x(fi, fr.lift(b)) == peerkey:
-                return True
-        return False
+        return _loop_eq(hf, f, entries, keys, lay, lambda b: _x(fi, fr.lift(b)) == peerkey)
 
     def says(f: Fact) -> bool:
         if loop_eq(f):
@@ -2369,8 +3323,8 @@ def _sites_below_ex(ctx: Ctx, fi: FuncInfo, want, *, lift=None, outer=(), trail=
         fr = _follow(ctx, fi, c, f"s{depth + 1}_", generators=True)
         if fr is None or not _private_helper(fi, fr) or fr.hf.node in seen:
             continue
-        if fr.self_expr is None and not any(want(x) for x in _calls_deep(ctx, fr.hf, 3 - depth)):
-            continue
+        if fr.self_expr is None and fr.hf.cls is not None and not any(want(x) for x in _calls_deep(ctx, fr.hf, 3 - depth)):
+            continue                              # (a function that is handed the community spells the wanted calls in its own terms: it is always looked into)
         p = _Paths(ctx, fi, c)
         here = [*outer, *[fact_of(lift(a), q) for a, q in p.all_pairs()]]
         out.extend(_sites_below_ex(ctx, fr.hf, want, lift=lambda e, fr=fr, lift=lift: lift(fr.lift(e)), outer=here, trail=(*trail, (p, lift)),
@@ -2528,7 +3482,7 @@ def rule_attest(ctx: Ctx) -> None:  # noqa: C901, PLR0912, PLR0915
     _use(ctx)
     repo = ctx.repo
     lay = known_hash_layout(ctx)
-    fi = repo.method("IdentityCommunity", "_received_disclosure_for_attest", IC)
+    fi = _method(ctx, "IdentityCommunity", "_received_disclosure_for_attest", IC)
     peer = fi.params()[1]
     peerkey = _c(f"{peer}.public_key.key_to_bin()")
     stable = not any(local_defs(fi, x) for x in fi.params()[1:3])
@@ -2554,15 +3508,15 @@ def rule_attest(ctx: Ctx) -> None:  # noqa: C901, PLR0912, PLR0915
     nostate = tuple([-1] * len(everywhere.tracked))
 
     # substantiate may hand back a positional result object instead of a bare pair: its fields also name the two components
-    sb = repo.method("IdentityManager", "substantiate", IM)
+    sb = _method(ctx, "IdentityManager", "substantiate", IM)
     sb_rets = [r for r in walk_no_nested(sb.node) if isinstance(r, ast.Return)]
     sb_rv = resolve(sb, sb_rets[0].value) if len(sb_rets) == 1 else None
     sb_rf = _record_fields(sb.module, sb_rv.func) if isinstance(sb_rv, ast.Call) else None
     sb_names = [n for n, _d in sb_rf[0]] if sb_rf is not None and sb_rf[1] and len(sb_rf[0]) == 2 else [None, None]
 
-    def from_sub(e: ast.AST | None, pos: int) -> bool:
-        """e is component pos of what the one substantiate call returned"""
-        call, path = _origin(ctx, fi, e)
+    def from_sub(e: ast.AST | None, pos: int, where: FuncInfo | None = None) -> bool:
+        """e (an expression of `where`, default the handler) is component pos of what the one substantiate call returned"""
+        call, path = _origin(ctx, where or fi, e)
         return sub is not None and call is sub and path in ((("idx", pos),), (("attr", sb_names[pos]),))
 
     def solicited_eval(e: ast.AST) -> bool:
@@ -2576,6 +3530,7 @@ def rule_attest(ctx: Ctx) -> None:  # noqa: C901, PLR0912, PLR0915
             return _selection(_unwrapped_iter(e.func.value), lay, peerkey) == "key"
         return False
     approved: dict = {}
+    own_entries, own_keys = _loop_entries(fi, lay)
     for owner, s, fs, lift, trail in found:
         sol = cor = ss_ok = False
         for f in fs:
@@ -2584,6 +3539,9 @@ def rule_attest(ctx: Ctx) -> None:  # noqa: C901, PLR0912, PLR0915
             fe = fact_of(e, outcome_of)
             via = _simple_callee_value(ctx, fi, e)
             if _solicited_fact(fe, lay, peerkey) or (f.pos and via is not None and _solicited_expr(via, lay, peerkey)):
+                sol = True
+            elif stable and _loop_eq(fi, f, own_entries, own_keys, lay, lambda b: _x(fi, b) == peerkey):
+                # the handler itself scanned the registrations and got past the comparison with the sender's key (for / else, flag, early return)
                 sol = True
             elif not sol:
                 # a verdict of a helper (a flag, an Enum member, a field of a result object) that is only produced for a solicited sender
@@ -2600,6 +3558,20 @@ def rule_attest(ctx: Ctx) -> None:  # noqa: C901, PLR0912, PLR0915
                     if from_sub(r.args[0], 1) and steady and _plain_reference(strip_cast(r.args[1])):
                         ss_ok = True
                         approved[id(s)] = _x(fi, r.args[1])
+        if owner.node is not fi.node and trail and not (cor and ss_ok):
+            # the site lies in a helper that also loads the disclosure (the whole tail moved): the same two facts, read in the helper's own terms
+            for a0, q0 in trail[-1][0].all_pairs():
+                f = fact_of(a0, q0)
+                if not (f.op == "truthy" and f.pos):
+                    continue
+                if from_sub(f.left, 0, owner):
+                    cor = True
+                r = resolve(owner, f.left)
+                if isinstance(r, ast.Call) and chain(lift(r.func)) == "self.should_sign" and len(r.args) == 2 and not r.keywords and not any(isinstance(a, ast.Starred) for a in r.args):
+                    steady = all(len(local_defs(owner, n.id)) <= 1 for n in ast.walk(r.args[1]) if isinstance(n, ast.Name))
+                    if from_sub(r.args[0], 1, owner) and steady and _plain_reference(strip_cast(r.args[1])):
+                        ss_ok = True
+                        approved[id(s)] = _x(fi, lift(r.args[1]))
         if not sol:
             # the sender's registration is looked up in a way that raises when there is none
             sol = any(p.evaluates(lambda e, lf=lf: solicited_eval(lf(e))) for p, lf in trail)
@@ -2637,7 +3609,7 @@ def _substantiate(ctx: Ctx) -> None:  # noqa: C901
     Any other way of computing it (an `or` alternative, a reset to True, |=) lets a disclosure whose chain or attestations
     did not verify count as correct, and the caller signs on the strength of it.
     """
-    sb = ctx.repo.method("IdentityManager", "substantiate", IM)
+    sb = _localised(ctx.repo, _method(ctx, "IdentityManager", "substantiate", IM))
     cfg = ctx.cfg(sb)
     p = sb.params()
     pseudo = _c(f"self.get_pseudonym({p[1]})")
@@ -2746,7 +3718,14 @@ def _substantiate(ctx: Ctx) -> None:  # noqa: C901
                 else:
                     lower_nodes.extend(cfg.nodes_for(s))
                     if low[0] == "and":
-                        anded.extend(conjuncts(low[1]))
+                        for cj in conjuncts(low[1]):
+                            r = resolve(sb, cj)
+                            if isinstance(r, ast.Name) and r.id not in sb.params() and len(local_defs(sb, r.id)) > 1:
+                                # the verdict and-ed in is itself a flag (started as True and only lowered, checked like the others below)
+                                if r.id not in flags:
+                                    flags.append(r.id)
+                            else:
+                                anded.append(cj)
                     else:
                         false_nodes.extend(cfg.nodes_for(s))
         chain_inits = [(n, s, v) for n, s, v in inits if v is not None and is_chain_verdict(v)]
@@ -2810,6 +3789,13 @@ def _contexts(ctx: Ctx, fi: FuncInfo, site: ast.AST, depth: int = 0) -> list:
     only through its callers, so what they established before the call holds at the site as well; lift rewrites an
     expression of fi into root's terms.
     """
+    merged = _undecorated(ctx.repo, fi)
+    if merged is not fi:
+        # the function is wrapped by a new decorator: the site is read where it now runs, behind the wrapper's guards
+        site2 = _same_site(merged, site)
+        if site2 is None:
+            raise AnalysisError(f"undecided: `{norm(site)[:60]}` of {fi.qualname} could not be located behind its new decorator")
+        fi, site = merged, site2
     here = _Paths(ctx, fi, site).facts()
     alone = [(fi, here, lambda e: e)]
     if depth < 3 and fi.cls is not None and fi.cls.name.startswith("_") and fi.name not in ("__init__", "__new__") and _ctor_layout(fi.cls) is not None:
@@ -2828,25 +3814,90 @@ def _contexts(ctx: Ctx, fi: FuncInfo, site: ast.AST, depth: int = 0) -> list:
                         return lift(fr.lift(e))
                     out.append((root, [*facts, *[fact_of(l3(a), q) for a, q in map(_pair_of, here)]], l3))
         return out or alone
-    if depth >= 3 or fi.cls is None or not fi.name.startswith("_") or fi.name.startswith("__"):
+    # a block that moved into a function the reviewed tree does not have (module level, possibly a new private module) is entered only through its calls
+    moved = fi.cls is None and _is_new(fi) and isinstance(fi.node, (ast.FunctionDef, ast.AsyncFunctionDef)) and enclosing_function_of(fi.node) is None and not _used_as_value(ctx, fi)
+    if depth >= 3 or fi.name.startswith("__") or not (moved or (fi.cls is not None and fi.name.startswith("_"))):
         return alone
     sites = []
     for m, g, c in ctx.repo.callers_of_name(fi.name):
         try:
-            if g is not None and fi in ctx.repo.resolve_call(g, c):
+            tg = ctx.repo.resolve_call(g, c) if g is not None else []
+            if moved and not tg and isinstance(c.func, ast.Attribute) and isinstance(c.func.value, ast.Name):
+                r = ctx.repo.resolve_name(m, c.func.value.id)
+                if isinstance(r, tuple) and r[0] == "module" and r[1] is fi.module:
+                    tg = [fi]
+            if moved and g is None and (fi in tg or (isinstance(c.func, ast.Name) and m.imports.get(c.func.id, (None, None))[1] == fi.name)):
+                return alone                      # called while a module is loaded
+            if g is not None and any(t.node is fi.node or _undecorated(ctx.repo, t).node is fi.node for t in tg):
                 sites.append((g, c))
+        except AnalysisError:
+            raise
         except Exception:  # noqa: BLE001
             return alone
     out = []
     for g, c in sites:
         fr = _Frame(g, c, fi, f"u{depth + 1}_")
-        if not fr.ok or g.cls is not fi.cls or g.node is fi.node:
+        same_family = g.cls is fi.cls or (g.cls is not None and fi.cls is not None and fi.cls in g.cls.mro() and _is_new_class(fi.cls))
+        if not fr.ok or not (moved or same_family) or g.node is fi.node:
             return alone
         for root, facts, lift in _contexts(ctx, g, c, depth + 1):
             def l2(e, fr=fr, lift=lift):
                 return lift(fr.lift(e))
             out.append((root, [*facts, *[fact_of(l2(a), q) for a, q in map(_pair_of, here)]], l2))
     return out or alone
+
+
+def enclosing_function_of(node: ast.AST):
+    return next((a for a in ancestors(node) if isinstance(a, (ast.FunctionDef, ast.AsyncFunctionDef, ast.Lambda))), None)
+
+
+def _is_new_class(k) -> bool:
+    """a private class the reviewed tree does not have (none of its methods is in the frozen table of its file)"""
+    try:
+        from ..localnames import load_table
+        table = load_table()
+    except Exception:  # noqa: BLE001
+        return False
+    if not table or not k.name.startswith("_"):
+        return False
+    known = table.get(k.module.relpath)
+    if known is None:
+        return k.module.relpath.startswith("ipv8/")
+    return not any(q.startswith(k.name + ".") for q in known)
+
+
+def _used_as_value(ctx: Ctx, f2: FuncInfo) -> bool:
+    """the module-level function is mentioned somewhere other than as the callee of a call, or imported under another name (its calls can then not be enumerated)"""
+    for m in ctx.repo.modules.values():
+        if any(v and v[1] == f2.name and local != f2.name for local, v in m.imports.items()):
+            return True
+        for x in ast.walk(m.tree):
+            if isinstance(x, ast.Name) and x.id == f2.name and isinstance(x.ctx, ast.Load):
+                if m is not f2.module and m.imports.get(x.id, (None, None))[1] != f2.name:
+                    continue
+                if not (isinstance(parent(x), ast.Call) and parent(x).func is x):
+                    return True
+            elif isinstance(x, ast.Attribute) and x.attr == f2.name and isinstance(x.ctx, ast.Load) and isinstance(x.value, ast.Name) \
+                    and not (isinstance(parent(x), ast.Call) and parent(x).func is x):
+                r = None
+                try:
+                    r = ctx.repo.resolve_name(m, x.value.id)
+                except Exception:  # noqa: BLE001
+                    return True
+                if isinstance(r, tuple) and r[0] == "module" and r[1] is f2.module:
+                    return True
+    return False
+
+
+def _same_site(merged: FuncInfo, site: ast.AST) -> ast.AST | None:
+    """the copy of `site` (a node of the decorated function's body) inside the merged function: same kind, same position, same text"""
+    want = (type(site), getattr(site, "lineno", None), getattr(site, "col_offset", None), getattr(site, "end_lineno", None), getattr(site, "end_col_offset", None))
+    if want[1] is None:
+        return None
+    text = norm(site)
+    hits = [n for n in ast.walk(merged.node) if (type(n), getattr(n, "lineno", None), getattr(n, "col_offset", None), getattr(n, "end_lineno", None), getattr(n, "end_col_offset", None)) == want
+            and norm(n) == text]
+    return hits[0] if len(hits) == 1 else None
 
 
 def _verify_is_for_given_key(ctx: Ctx) -> None:
@@ -3062,6 +4113,12 @@ def rule_store(ctx: Ctx) -> None:
     for meth, (m, fi, c, eff, extra) in [(k, t) for k in ("insert_attestation", "insert_metadata") for t in _store_calls(ctx, k)]:
         n += 1
         inside = fi.cls is pm or _holder_only_made_in(ctx, fi.cls, pm)
+        if not inside and fi.cls is not None and fi.cls in pm.mro() and _is_new_class(fi.cls):
+            inside = True                         # a method PseudonymManager inherits from a new private mixin / base is one of its methods
+        elif not inside and fi.cls is None:
+            # the call moved into a new module-level function: it runs where PseudonymManager's methods call it
+            roots = _contexts(ctx, fi, c)
+            inside = bool(roots) and all(root.cls is pm and root.node is not fi.node for root, _fs, _lift in roots)
         ctx.check(inside, "store-only-valid", fi, c, f"{meth} called from PseudonymManager", f"{meth} is called outside PseudonymManager's verifying methods")
         if not inside:
             continue
@@ -3082,7 +4139,7 @@ def rule_store(ctx: Ctx) -> None:
             ctx.check(ok, "store-only-valid", fi, c, "metadata stored only if signed by the pseudonym's key", "metadata is stored without a valid owner signature", shown)
     ctx.floor("store-only-valid", n, 3)
     _verify_is_for_given_key(ctx)
-    oa = repo.method("IdentityCommunity", "on_attest", IC)
+    oa = _method(ctx, "IdentityCommunity", "on_attest", IC)
     from .c01 import classify_handler
     ctx.check(classify_handler(ctx, oa) == "authenticated", "store-only-valid", oa, oa.node, "on_attest is authenticated", "on_attest is not authenticated")
     peer = oa.params()[1]
@@ -3145,6 +4202,18 @@ class _Prov:
         self.ctx, self.fi, self.peers, self.param_kinds, self.depth = ctx, fi, {p for p in peers if not local_defs(fi, p)}, param_kinds or {}, depth
         self.busy: set[str] = set()
         self.memo: dict = {}
+        self.alias: dict[str, ast.AST] = {}       # never-rebound parameters of a followed helper that are the community / its chain / its permission map
+
+    def canon(self, e: ast.AST | None) -> ast.AST | None:
+        """e with the parameters that were handed the community, its token chain or its permission map spelled as self / self.token_chain / self.permissions"""
+        if e is None or not self.alias or not any(isinstance(n, ast.Name) and n.id in self.alias for n in ast.walk(e)):
+            return e
+        alias = self.alias
+
+        class Sub(ast.NodeTransformer):
+            def visit_Name(self, n):  # noqa: N802
+                return clone(alias[n.id]) if n.id in alias and isinstance(n.ctx, ast.Load) else n
+        return Sub().visit(clone(e))
 
     @staticmethod
     def unify(kinds) -> str | None:
@@ -3252,6 +4321,7 @@ class _Prov:
         e = strip_cast(e) if e is not None else None
         if e is None or depth > 6:
             return False
+        e = self.canon(e)
         cv = const_value(e)
         if cv is not NOCONST:
             return cv == 0 and not isinstance(cv, bool)
@@ -3282,6 +4352,9 @@ class _Prov:
                 return isinstance(x, ast.Call) and chain(x.func) == "len" and len(x.args) == 1
             a, b = e.args
             return (self.bound(a, depth + 1) and (length(b) or self.bound(b, depth + 1))) or (length(a) and self.bound(b, depth + 1))
+        val = _pure_call_value(self.fi, e) if isinstance(e, ast.Call) else None
+        if val is not None and not any(isinstance(n, ast.Name) and n.id.startswith("v_") for n in ast.walk(val)):
+            return self.bound(val, depth + 1)
         fr = _follow(self.ctx, self.fi, e, "b_")
         if fr is not None and self.depth < 3:
             sub = self.sub(fr)
@@ -3292,19 +4365,28 @@ class _Prov:
 
     def sub(self, fr: _Frame) -> "_Prov | None":
         """the same question inside a followed helper: its parameters take the kinds of the arguments"""
-        if fr.hf.cls is None or fr.hf.cls is not self.fi.cls:
-            return None
-        peers, kinds = set(), {}
+        own = fr.hf.cls is not None and (fr.hf.cls is self.fi.cls or (self.fi.cls is not None and fr.hf.cls in self.fi.cls.mro()))
+        if not own and not _is_new(fr.hf):
+            return None                           # only helpers of the class itself (or its bases) and functions the reviewed tree does not have
+        peers, kinds, alias = set(), {}, {}
         for name, a in fr.bind.items():
             if name in fr.locals:
                 continue                          # rebound parameter: a local of the helper
+            t = norm(self.canon(resolve(self.fi, a))) if a is not None else None
+            if t in ("self", "self.token_chain", "self.permissions") and (name != "self" or t == "self"):
+                alias[name] = ast.parse(t, mode="eval").body
+                if t == "self.token_chain":
+                    kinds[name] = "CHAIN"
+                continue
             if self.is_peer(a):
                 peers.add(name)
             elif self.bound(a):
                 kinds[name] = "BOUND"
             else:
                 kinds[name] = self.kind(a, {})
-        return _Prov(self.ctx, fr.hf, peers, kinds, self.depth + 1)
+        out = _Prov(self.ctx, fr.hf, peers, kinds, self.depth + 1)
+        out.alias = {k: v for k, v in alias.items() if not (k == "self" and norm(v) == "self")}
+        return out
 
     def local_kind(self, name: str) -> str | None:  # noqa: C901, PLR0912
         if name in self.memo:
@@ -3557,6 +4639,7 @@ class _Prov:
         e = strip_cast(e) if e is not None else None
         if e is None:
             return None
+        e = self.canon(e) if not (env and set(env) & set(self.alias)) else e
         if isinstance(e, ast.Constant):
             return "BYTES" if isinstance(e.value, bytes) else None
         if isinstance(e, ast.Name):
@@ -3646,6 +4729,9 @@ class _Prov:
                 return "PAIRS" if k == "TOKENS" else None
             if env:
                 return None                       # a helper called with comprehension variables: not followed
+            val = _pure_call_value(self.fi, e)
+            if val is not None and not any(isinstance(n, ast.Name) and n.id.startswith("v_") for n in ast.walk(val)):
+                return self.kind(val, env)        # a one-expression function (possibly of another module): what the call evaluates to
             fr = _follow(self.ctx, self.fi, e, "p_", generators=True)
             if fr is not None and self.depth < 3:
                 sub = self.sub(fr)
@@ -3701,7 +4787,7 @@ def _sub_env(e: ast.AST | None, env: dict) -> ast.AST | None:
 
 def rule_permitted(ctx: Ctx) -> None:  # noqa: C901, PLR0912
     repo = ctx.repo
-    fi = repo.method("IdentityCommunity", "on_request_missing", IC)
+    fi = _method(ctx, "IdentityCommunity", "on_request_missing", IC)
     from .c01 import classify_handler
     ctx.check(classify_handler(ctx, fi) == "authenticated", "permitted-range", fi, fi.node, "on_request_missing is authenticated", "token requests are not authenticated")
     peer = fi.params()[1]
@@ -3735,7 +4821,7 @@ def rule_permitted(ctx: Ctx) -> None:  # noqa: C901, PLR0912
     n = 0
     writer = "IdentityCommunity.request_attestation_advertisement"
     # every community (one per pseudonym) starts with its own, empty permission map
-    init = repo.method("IdentityCommunity", "__init__", IC)
+    init = _method(ctx, "IdentityCommunity", "__init__", IC)
     icfg = ctx.cfg(init)
     fresh = []
     for st, t in stores(init, "self.permissions"):
@@ -3750,6 +4836,13 @@ def rule_permitted(ctx: Ctx) -> None:  # noqa: C901, PLR0912
             made = [x for st, t in stores(fr.hf, "self.permissions") if _stored_value(st, t) is not None and _fresh_empty_mapping(_stored_value(st, t)) for x in hcfg.nodes_for(st)]
             if made and hcfg.must_complete(hcfg.exit, made):
                 fresh.extend(icfg.nodes_for(c))
+    pview = _state_view(ctx, "permissions")
+    if pview is not None:
+        # the map lives in a state holder that __init__ constructs (its own __init__ always starts with an empty map)
+        for st, t in stores(init, f"self.{pview[0]}"):
+            v = strip_cast(_stored_value(st, t)) if _stored_value(st, t) is not None else None
+            if isinstance(v, ast.Call) and repo.resolve_class_expr(init.module, v.func) is pview[2]:
+                fresh.extend(icfg.nodes_for(st))
     per_instance = bool(fresh) and icfg.must_complete(icfg.exit, fresh)
     shared = repo.cls("IdentityCommunity", IC).lookup_attr("permissions")
     if shared is not None:
@@ -3759,7 +4852,10 @@ def rule_permitted(ctx: Ctx) -> None:  # noqa: C901, PLR0912
               "IdentityCommunity.permissions is not created afresh in __init__" + (f" (it is the class-level object `{norm(shared)}`, shared by all instances)" if shared is not None else "")
               + ": the communities of all pseudonyms in the process then read one permission map, so what the user of one pseudonym opened to a peer "
               "also hands that peer the token chain of every other pseudonym in on_request_missing")
-    for m, f2, a in repo.attribute_uses("permissions"):
+    puses = list(repo.attribute_uses("permissions"))
+    if pview is not None and pview[1] != "permissions":
+        puses += [(m, f2, a) for m, f2, a in repo.attribute_uses(pview[1]) if f2 is not None and f2.node is pview[3].node]
+    for m, f2, a in puses:
         if not m.relpath.startswith("ipv8/attestation/identity/"):
             continue
         p = parent(a)
@@ -3769,6 +4865,10 @@ def rule_permitted(ctx: Ctx) -> None:  # noqa: C901, PLR0912
             continue
         n += 1
         st = enclosing_stmt(a)
+        if pview is not None and f2 is not None and f2.node is pview[3].node:
+            ctx.check(_view_creation(ctx, "permissions", f2, a), "permitted-range", f2, st, "the state holder behind IdentityCommunity.permissions only creates the (empty) permission map",
+                      "the state holder behind IdentityCommunity.permissions fills or shares the permission map instead of starting from an empty one of its own")
+            continue
         if f2 is not None and f2.qualname == "IdentityCommunity.__init__":
             v = _stored_value(st, a) if isinstance(a.ctx, ast.Store) else None
             ctx.check(v is not None and _fresh_empty_mapping(v), "permitted-range", f2, st, "__init__ only creates the (empty) permission map",
@@ -3787,16 +4887,88 @@ def rule_permitted(ctx: Ctx) -> None:  # noqa: C901, PLR0912
             elif p.attr == "__setitem__" and len(call.args) == 2:
                 key, val = call.args
         ok = f2 is not None and key is not None and norm(a.value) == "self"
+        as_self = (lambda e: e)
+        if not ok and f2 is not None and key is not None and f2.cls is None and isinstance(a.value, ast.Name) and _param_is_callers_peer(ctx, f2, a.value.id, writer, index=0):
+            # a new module-level helper that is handed the community: its parameter is the writer's self at every call
+            ok = True
+
+            def as_self(e, recv=a.value.id):
+                class Sub(ast.NodeTransformer):
+                    def visit_Name(self, n):  # noqa: N802
+                        return ast.Name(id="self", ctx=n.ctx) if n.id == recv else n
+                return Sub().visit(clone(e))
         if ok and f2.qualname == writer:
             kk = resolve(f2, key)
             ok = isinstance(kk, ast.Name) and kk.id == f2.params()[1] and not local_defs(f2, f2.params()[1]) and _x(f2, val) == "len(self.token_chain)"
         elif ok:
             # a private helper that only request_attestation_advertisement calls, writing for the peer it was given
             kk = resolve(f2, key)
-            ok = _only_reached_from(ctx, f2, (writer,)) and isinstance(kk, ast.Name) and _x(f2, val) == "len(self.token_chain)" and _param_is_callers_peer(ctx, f2, kk.id, writer)
+            ok = _only_reached_from(ctx, f2, (writer,)) and isinstance(kk, ast.Name) and _x(f2, as_self(val)) == "len(self.token_chain)" and _param_is_callers_peer(ctx, f2, kk.id, writer)
         ctx.check(ok, "permitted-range", f2 or m.relpath, st, "permissions written only for the peer chosen by the user, with the current chain length",
                   "the disclosure permission of a peer is written outside request_attestation_advertisement")
     ctx.floor("permitted-range", n, 2)
+
+
+def _state_view(ctx: Ctx, attr: str):
+    """
+    (holder attribute, field, holder class, holder __init__) when IdentityCommunity.<attr> is no longer stored on the
+    community but is a read-only @property `return self.<holder>.<field>` over a new private state-holder object that
+    IdentityCommunity.__init__ (and nothing else) constructs and stores in self.<holder>, and whose __init__ always
+    stores a fresh empty mapping in self.<field>.  Reading and subscripting `self.<attr>` then means the same map as
+    before, created empty once per community.  None when <attr> is not such a view.
+    """
+    memo = ctx.repo.__dict__.setdefault("_c17_views", {})
+    if attr in memo:
+        return memo[attr]
+    memo[attr] = None
+    cls = ctx.repo.cls("IdentityCommunity", IC)
+    m = cls.methods.get(attr)
+    if m is None or m.decorator_names() != ["property"] or len(m.node.decorator_list) != 1 or m.is_async:
+        return None
+    if sum(1 for x in cls.node.body if isinstance(x, (ast.FunctionDef, ast.AsyncFunctionDef)) and x.name == attr) != 1 or attr in cls.attrs:
+        return None                               # a setter / deleter / class-level value next to the getter
+    body = [x for x in m.node.body if not (isinstance(x, ast.Expr) and isinstance(x.value, ast.Constant))]
+    me = m.params()[0] if m.params() else None
+    v = strip_cast(body[0].value) if len(body) == 1 and isinstance(body[0], ast.Return) and body[0].value is not None else None
+    if not (isinstance(v, ast.Attribute) and isinstance(v.value, ast.Attribute) and isinstance(v.value.value, ast.Name) and v.value.value.id == me):
+        return None
+    h, f = v.value.attr, v.attr
+    k = ctx.repo.attr_type(cls, h)
+    if k is None or not _is_new_class(k) or k.subclasses or "__init__" not in k.methods:
+        return None
+    kinit = k.methods["__init__"]
+    kcfg = ctx.cfg(kinit)
+    kself = kinit.params()[0]
+    made = [x for st, t in stores(kinit, f"{kself}.{f}") if _stored_value(st, t) is not None and _fresh_empty_mapping(_stored_value(st, t)) for x in kcfg.nodes_for(st)]
+    if not made or not kcfg.must_complete(kcfg.exit, made):
+        return None
+    # self.<holder> is stored only by IdentityCommunity.__init__, as a newly constructed holder
+    for _m2, f2, a in ctx.repo.attribute_uses(h):
+        if isinstance(a.ctx, (ast.Store, ast.Del)):
+            st = enclosing_stmt(a)
+            val = _stored_value(st, a) if isinstance(a.ctx, ast.Store) else None
+            val = strip_cast(val) if val is not None else None
+            if f2 is None or f2.qualname != "IdentityCommunity.__init__" or not isinstance(val, ast.Call) or ctx.repo.resolve_class_expr(f2.module, val.func) is not k:
+                return None
+    # the holder's field is reached only through the property (and set up in the holder's __init__)
+    if f != attr:
+        for m2, f2, a in ctx.repo.attribute_uses(f):
+            if not m2.relpath.startswith("ipv8/attestation/identity/") or f2 is None or f2.cls not in (k, cls):
+                continue
+            if f2.node is m.node or f2.node is kinit.node:
+                continue
+            raise AnalysisError(f"undecided: {f2.qualname} reaches the state behind IdentityCommunity.{attr} as `{norm(a)}`, not through the property")
+    memo[attr] = (h, f, k, kinit)
+    return memo[attr]
+
+
+def _view_creation(ctx: Ctx, attr: str, f2: FuncInfo | None, a: ast.AST) -> bool:
+    """the attribute store `a` in f2 is the holder's __init__ creating the (empty) map behind the view IdentityCommunity.<attr>"""
+    view = _state_view(ctx, attr)
+    if view is None or f2 is None or f2.node is not view[3].node or not isinstance(a.ctx, ast.Store) or a.attr != view[1]:
+        return False
+    v = _stored_value(enclosing_stmt(a), a)
+    return v is not None and _fresh_empty_mapping(v)
 
 
 def _stored_value(st: ast.AST, target: ast.AST) -> ast.AST | None:
@@ -3829,20 +5001,32 @@ def _fresh_empty_mapping(v: ast.AST) -> bool:
     return False
 
 
-def _param_is_callers_peer(ctx: Ctx, f2: FuncInfo, name: str, writer: str, depth: int = 0) -> bool:
-    """the (never rebound) parameter `name` of helper f2 is, at every call, the peer parameter of `writer`"""
+def _targets(ctx: Ctx, m, g: FuncInfo | None, c: ast.Call) -> list:
+    """resolve_call, plus `<imported module>.function(...)`"""
+    if g is None:
+        return []
+    tg = ctx.repo.resolve_call(g, c)
+    if not tg and isinstance(c.func, ast.Attribute) and isinstance(c.func.value, ast.Name) and c.func.value.id not in g.params() and not local_defs(g, c.func.value.id):
+        r = ctx.repo.resolve_name(m, c.func.value.id)
+        if isinstance(r, tuple) and r[0] == "module" and r[1] is not None and c.func.attr in r[1].functions:
+            tg = [r[1].functions[c.func.attr]]
+    return tg
+
+
+def _param_is_callers_peer(ctx: Ctx, f2: FuncInfo, name: str, writer: str, depth: int = 0, index: int = 1) -> bool:
+    """the (never rebound) parameter `name` of helper f2 is, at every call, the peer parameter (parameter number `index`) of `writer`"""
     if name not in f2.params() or local_defs(f2, name) or depth > 3:
         return False
-    sites = [(g, c) for m, g, c in ctx.repo.callers_of_name(f2.name) if g is not None and f2 in ctx.repo.resolve_call(g, c)]
+    sites = [(g, c) for m, g, c in ctx.repo.callers_of_name(f2.name) if g is not None and f2 in _targets(ctx, m, g, c)]
     for g, c in sites:
         fr = _Frame(g, c, f2, "w_")
         a = resolve(g, fr.bind.get(name)) if fr.ok and name in fr.bind else None
         if not isinstance(a, ast.Name) or local_defs(g, a.id):
             return False
         if g.qualname == writer:
-            if a.id != g.params()[1]:
+            if a.id != g.params()[index]:
                 return False
-        elif not _param_is_callers_peer(ctx, g, a.id, writer, depth + 1):
+        elif not _param_is_callers_peer(ctx, g, a.id, writer, depth + 1, index):
             return False
     return bool(sites)
 
